@@ -1,8 +1,12 @@
 (** Specification and proofs for the DNS filtering pipeline, layer A
-    (C01, C02): the engines, the safe-browsing / parental verdicts and the
-    upstream are arbitrary. *)
+    (C01, C02): the engines, the safe-browsing / parental / safe-search
+    verdicts, the sort inside the legacy rewrites and the upstream are
+    arbitrary; legacy rewrites, $dnsrewrite results, the hosts-file container,
+    safe search, a named block page, DDR and the DHCP stages are part of the
+    configuration every theorem quantifies over. *)
 From Coq Require Import List NArith Bool Lia Permutation.
 From AGH Require Import Base.Run Base.NetAddr Base.RuleEngine Model.Pipeline.
+From AGH Require Model.Rewrites.
 Import ListNotations.
 Local Open Scope N_scope.
 
@@ -45,45 +49,79 @@ Definition synthetic (c : cfg) (name : bytes) (qt : N) (rule_ips : list addr) : 
 
 Definition rule_reason (r : reason) : Prop := r = FilteredBlockList \/ r = FilteredBlockedService.
 
-Lemma filter_message_synthetic c name qt r :
+Lemma filter_message_synthetic c up name qt r :
   rule_reason (r_reason r) ->
-  filter_message c name qt r = synthetic c name qt (ips_from_rules r).
+  filter_message c up name qt r = (synthetic c name qt (ips_from_rules r), []).
 Proof.
   intros Hr. unfold filter_message, synthetic, addr_question.
   destruct ((qt =? tA) || (qt =? tAAAA) || (qt =? tHTTPS)) eqn:Eq; cbn [negb].
   - assert (Hm : match r_reason r with
-                 | FilteredSafeBrowsing => blocked_host_response c name qt (c_sb_host c)
-                 | FilteredParental => blocked_host_response c name qt (c_par_host c)
-                 | _ => for_blocking_mode c name qt (ips_from_rules r)
-                 end = for_blocking_mode c name qt (ips_from_rules r)).
+                 | FilteredSafeBrowsing => blocked_host_response c up name qt (c_sb_host c)
+                 | FilteredParental => blocked_host_response c up name qt (c_par_host c)
+                 | FilteredSafeSearch => (cname_with_ips c name qt (ips_from_rules r) (r_canon r), [])
+                 | _ => (for_blocking_mode c name qt (ips_from_rules r), [])
+                 end = (for_blocking_mode c name qt (ips_from_rules r), [])).
     { destruct Hr as [-> | ->]; reflexivity. }
-    rewrite Hm. unfold for_blocking_mode, null_ip_response, response_with_ips, null_answers, answers_for,
+    rewrite Hm. f_equal.
+    unfold for_blocking_mode, null_ip_response, response_with_ips, addr_records, null_answers, answers_for,
       empty_ok, refused, nxdomain.
     destruct (c_mode c); try reflexivity.
     + destruct (ips_from_rules r) as [|i l]; destruct (qt =? tA) eqn:EA; try reflexivity;
         try (destruct (qt =? tAAAA) eqn:E6; reflexivity).
-      destruct (forallb is4 (i :: l)); reflexivity.
     + destruct (qt =? tA); [reflexivity|]. destruct (qt =? tAAAA); reflexivity.
     + destruct (qt =? tA); [reflexivity|]. destruct (qt =? tAAAA); reflexivity.
   - destruct (c_mode c); reflexivity.
 Qed.
 
+(** Only a named block page makes [filter_message] talk to the upstream, and
+    then it asks for that name only. *)
+Definition blockpage_calls (c : cfg) (qt : N) (r : result) : list (bytes * N) :=
+  if addr_question qt then
+    match r_reason r with
+    | FilteredSafeBrowsing => match c_sb_host c with BHName n => [(fqdn n, qt)] | _ => [] end
+    | FilteredParental => match c_par_host c with BHName n => [(fqdn n, qt)] | _ => [] end
+    | _ => []
+    end
+  else [].
+
+Lemma filter_message_calls c up name qt r :
+  snd (filter_message c up name qt r) = blockpage_calls c qt r.
+Proof.
+  unfold filter_message, blockpage_calls, addr_question.
+  destruct ((qt =? tA) || (qt =? tAAAA) || (qt =? tHTTPS)); cbn [negb]; [|reflexivity].
+  unfold blocked_host_response.
+  destruct (r_reason r); try reflexivity.
+  - destruct (c_sb_host c) as [|a|n]; try reflexivity. destruct (up (fqdn n) qt); reflexivity.
+  - destruct (c_par_host c) as [|a|n]; try reflexivity. destruct (up (fqdn n) qt); reflexivity.
+Qed.
+
 Section Engines.
   Variable allow_eng block_eng : ufreq -> dnsresult * bool.
   Variable sb_oracle par_oracle : bytes -> bool.
+  Variable ss_oracle : bytes -> N -> option ssverdict.
+  Variable rw_sort : list Rewrites.entry -> list Rewrites.entry.
 
-  Notation check_host := (check_host allow_eng block_eng sb_oracle par_oracle).
+  Notation check_host := (check_host allow_eng block_eng sb_oracle par_oracle ss_oracle rw_sort).
+  Notation first_match := (first_match allow_eng block_eng sb_oracle par_oracle ss_oracle).
+  Notation run_checker := (run_checker allow_eng block_eng sb_oracle par_oracle ss_oracle).
+  Notation legacy_rewrite := (legacy_rewrite rw_sort).
   Notation match_host := (match_host allow_eng block_eng).
-  Notation process := (process allow_eng block_eng sb_oracle par_oracle).
+  Notation process := (process allow_eng block_eng sb_oracle par_oracle ss_oracle rw_sort).
+  Notation run_stage := (run_stage allow_eng block_eng sb_oracle par_oracle ss_oracle rw_sort).
+  Notation run_stages := (run_stages allow_eng block_eng sb_oracle par_oracle ss_oracle rw_sort).
   Notation filter_answer := (filter_answer allow_eng block_eng).
   Notation check_rr := (check_rr allow_eng block_eng).
 
   (** * The request as the engines see it *)
 
   Definition rq_of (st : settings) (host : bytes) (qt : N) : ufreq :=
-    mkReq host qt (st_client_name st) (Some (st_client_ip st)).
+    mkReq host qt (st_client_name st) (Some (st_client_ip st)) (st_client_tags st).
 
   Definition host_of (q : request) : bytes := lower (trim_dot (q_name q)).
+
+  Definition the_call (q : request) : bytes * N := (q_name q, q_qtype q).
+
+  (** * The stages in front of filtering *)
 
   (** Queries answered before any filtering (AAAA switched off, the Firefox
       canary, the health-check name). *)
@@ -92,18 +130,338 @@ Section Engines.
     (((q_qtype q =? tA) || (q_qtype q =? tAAAA)) && eqb_bytes (q_name q) mozilla_fqdn) ||
     eqb_bytes (q_name q) healthcheck_fqdn.
 
-  (** * Declarative verdicts, in terms of what the engines report *)
+  Definition early_answer (c : cfg) (q : request) : resp :=
+    if c_aaaa_disabled c && (q_qtype q =? tAAAA) then nodata
+    else if ((q_qtype q =? tA) || (q_qtype q =? tAAAA)) && eqb_bytes (q_name q) mozilla_fqdn then nxdomain
+    else empty_ok.
+
+  Definition ddr_answer (c : cfg) (q : request) : option resp :=
+    match c_ddr c with
+    | Some ids => if eqb_bytes (q_name q) ddr_fqdn then Some (ddr_response c q ids) else None
+    | None => None
+    end.
+
+  Definition dhcp_host_answer (c : cfg) (q : request) (ip : addr) : resp :=
+    mkResp rcSuccess
+      (if q_qtype q =? tA then [rec_a c (q_name q) ip]
+       else match c_dns64 c with
+            | Some pref => [rec_aaaa c (q_name q) (map_dns64 pref ip)]
+            | None => []
+            end) false.
+
+  Definition dhcp_addr_answer (c : cfg) (q : request) : option resp :=
+    match q_private_rdns q with
+    | None => None
+    | Some a =>
+        if negb (q_qtype q =? tPTR) then None
+        else match assoc_addr (c_dhcp_addrs c) a with
+             | None | Some [] => None
+             | Some host => Some (mkResp rcSuccess [rec_ptr c (q_name q) (host ++ 46 :: c_local_suffix c)] false)
+             end
+    end.
+
+  (** What the stages in front of filtering do with a request: answer and
+      stop (nothing logged), answer and go on to the log, or hand it to
+      filtering (remembering whether it names a DHCP host). *)
+  Inductive prefilter_result := PFinish (r : resp) | PAnswered (r : resp) | PContinue (dhcp : bool).
+
+  Definition prefilter (c : cfg) (q : request) : prefilter_result :=
+    if early c q then PFinish (early_answer c q)
+    else match ddr_answer c q with
+    | Some r => PFinish r
+    | None =>
+        match dhcp_host_from_request c q with
+        | Some host =>
+            if negb (q_private_client q) then PFinish nxdomain
+            else match assoc_bytes (c_dhcp_hosts c) host with
+                 | Some ip => PAnswered (dhcp_host_answer c q ip)
+                 | None =>
+                     match dhcp_addr_answer c q with
+                     | Some r => PAnswered r
+                     | None => PContinue true
+                     end
+                 end
+        | None =>
+            match dhcp_addr_answer c q with
+            | Some r => PAnswered r
+            | None => PContinue false
+            end
+        end
+    end.
+
+  (** * The pipeline unfolded *)
+
+  Definition after_upstream (c : cfg) (up : upstream) (q : request) (res : result) (r : resp) : outcome :=
+    let st := request_settings c q in
+    match r_reason res with
+    | NotFilteredAllowList | RewrittenLegacy | RewrittenRule | FilteredSafeSearch =>
+        mkOutcome (Some r) [the_call q] res false true (q_name q)
+    | _ =>
+        if negb (protection_on c) || negb (st_filtering st)
+        then mkOutcome (Some r) [the_call q] res false true (q_name q)
+        else
+          match filter_answer c st (rs_answer r) with
+          | (_, Some fr) =>
+              mkOutcome (Some (fst (filter_message c up (q_name q) (q_qtype q) fr))) [the_call q] fr true true
+                        (q_name q)
+          | (ans', None) =>
+              mkOutcome (Some (mkResp (rs_rcode r) ans' (rs_soa r))) [the_call q] res false true (q_name q)
+          end
+    end.
+
+  Definition forward_outcome (c : cfg) (up : upstream) (q : request) (res : result) : outcome :=
+    match up (q_name q) (q_qtype q) with
+    | None => mkOutcome (Some servfail) [the_call q] res false false (q_name q)
+    | Some r => after_upstream c up q res r
+    end.
+
+  Definition dhcp_nx (res : result) (name : bytes) : outcome :=
+    mkOutcome (Some nxdomain) [] res false false name.
+
+  (** What happens to a request whose CheckHost verdict is [res]. *)
+  Definition verdict_outcome (c : cfg) (up : upstream) (q : request) (dhcp : bool) (res : result) : outcome :=
+    let name := q_name q in
+    let qt := q_qtype q in
+    if is_rewritten_cname res then
+      let cn := fqdn (r_canon res) in
+      if dhcp then dhcp_nx res cn
+      else match up cn qt with
+           | None => mkOutcome (Some servfail) [(cn, qt)] res false false name
+           | Some r =>
+               mkOutcome (Some (mkResp (rs_rcode r) (rec_cname c name (r_canon res) :: rs_answer r) (rs_soa r)))
+                         [(cn, qt)] res false true name
+           end
+    else if r_filtered res then
+      mkOutcome (Some (fst (filter_message c up name qt res))) (snd (filter_message c up name qt res))
+                res false true name
+    else
+      match r_reason res with
+      | RewrittenLegacy | FilteredSafeSearch =>
+          mkOutcome (Some (cname_with_ips c name qt (r_iplist res) (r_canon res))) [] res false true name
+      | RewrittenRule | RewrittenAutoHosts =>
+          match dns_rewrite_response c name qt res with
+          | None => mkOutcome None [] no_result false false name
+          | Some r => mkOutcome (Some r) [] res false true name
+          end
+      | _ => if dhcp then dhcp_nx res name else forward_outcome c up q res
+      end.
+
+  Definition process_spec (c : cfg) (up : upstream) (q : request) : outcome :=
+    match prefilter c q with
+    | PFinish r => mkOutcome (Some r) [] no_result false false (q_name q)
+    | PAnswered r => mkOutcome (Some r) [] no_result false true (q_name q)
+    | PContinue dhcp =>
+        match check_host c (request_settings c q) (trim_dot (q_name q)) (q_qtype q) with
+        | None => mkOutcome None [] no_result false false (q_name q)
+        | Some res => verdict_outcome c up q dhcp res
+        end
+    end.
+
+  Lemma run_cons c up q s rest p :
+    run_stages c up q (s :: rest) p =
+    match run_stage c up q s p with
+    | (RcSuccess, p') => run_stages c up q rest p'
+    | (_, p') => p'
+    end.
+  Proof. reflexivity. Qed.
+
+  Definition with_dhcp (p : pstate) : pstate :=
+    mkPState (ps_resp p) (ps_calls p) (ps_result p) (ps_orig_kept p) (ps_from_upstream p)
+             (ps_logged p) (ps_qname p) (ps_orig_q p) true (ps_resp_qname p).
+
+  Definition with_logged (p : pstate) : pstate :=
+    mkPState (ps_resp p) (ps_calls p) (ps_result p) (ps_orig_kept p) (ps_from_upstream p) true
+             (ps_qname p) (ps_orig_q p) (ps_dhcp_host p) (ps_resp_qname p).
+
+  (** Once a response exists that did not come from the upstream, and the
+      question was not rewritten, the remaining stages only log. *)
+  Lemma tail_after_upstream_stage c up q p r :
+    ps_resp p = Some r -> ps_from_upstream p = false -> ps_orig_q p = None ->
+    run_stages c up q [StFilterAfter; StIpset; StLog] p = with_logged p.
+  Proof.
+    intros Hr Hu Ho. rewrite run_cons.
+    assert (H : run_stage c up q StFilterAfter p = (RcSuccess, p)).
+    { unfold Pipeline.run_stage. rewrite Hu, Ho. cbn [negb]. rewrite orb_true_r. cbn [orb].
+      destruct (r_reason (ps_result p)); reflexivity. }
+    rewrite H. reflexivity.
+  Qed.
+
+  Lemma tail_with_resp c up q p r :
+    ps_resp p = Some r -> ps_from_upstream p = false -> ps_orig_q p = None ->
+    run_stages c up q [StUpstream; StFilterAfter; StIpset; StLog] p = with_logged p.
+  Proof.
+    intros Hr Hu Ho. rewrite run_cons.
+    assert (H : run_stage c up q StUpstream p = (RcSuccess, p)).
+    { unfold Pipeline.run_stage. rewrite Hr. reflexivity. }
+    rewrite H. eapply tail_after_upstream_stage; eassumption.
+  Qed.
+
+  Lemma tail_answered c up q p r :
+    ps_resp p = Some r -> ps_from_upstream p = false -> ps_orig_q p = None ->
+    run_stages c up q [StFilterBefore; StUpstream; StFilterAfter; StIpset; StLog] p = with_logged p.
+  Proof.
+    intros Hr Hu Ho. rewrite run_cons.
+    assert (H : run_stage c up q StFilterBefore p = (RcSuccess, p)).
+    { unfold Pipeline.run_stage. rewrite Hr. reflexivity. }
+    rewrite H. eapply tail_with_resp; eassumption.
+  Qed.
+
+  (** From the filtering stage on, for a state without a response. *)
+  Lemma filtering_tail c up q dhcp :
+    let p := mkPState None [] no_result false false false (q_name q) None dhcp (q_name q) in
+    outcome_of (run_stages c up q [StFilterBefore; StUpstream; StFilterAfter; StIpset; StLog] p) =
+    match check_host c (request_settings c q) (trim_dot (q_name q)) (q_qtype q) with
+    | None => mkOutcome None [] no_result false false (q_name q)
+    | Some res => verdict_outcome c up q dhcp res
+    end.
+  Proof.
+    cbv zeta. rewrite run_cons. unfold Pipeline.run_stage at 1. cbn [ps_resp ps_qname].
+    destruct (check_host c (request_settings c q) (trim_dot (q_name q)) (q_qtype q)) as [res|]; [|reflexivity].
+    unfold apply_request_verdict, verdict_outcome. cbn [ps_qname ps_calls ps_dhcp_host ps_resp_qname ps_result].
+    destruct (is_rewritten_cname res) eqn:Ec.
+    - (* the question is rewritten and resolved; the CNAME is put in front *)
+      rewrite run_cons. unfold Pipeline.run_stage at 1. cbn [ps_resp ps_dhcp_host ps_qname ps_calls ps_result ps_orig_q app].
+      destruct dhcp; [reflexivity|].
+      destruct (up (fqdn (r_canon res)) (q_qtype q)) as [r|]; [|reflexivity].
+      rewrite run_cons. unfold Pipeline.run_stage at 1.
+      cbn [ps_result ps_orig_q ps_resp ps_calls ps_orig_kept ps_from_upstream ps_logged ps_dhcp_host].
+      unfold is_rewritten_cname in Ec.
+      destruct (r_reason res); try discriminate Ec; reflexivity.
+    - destruct (r_filtered res) eqn:Ef.
+      + destruct (filter_message c up (q_name q) (q_qtype q) res) as [r calls] eqn:Em.
+        erewrite tail_with_resp; [reflexivity | reflexivity | reflexivity | reflexivity].
+      + destruct (r_reason res) eqn:Er;
+          try (erewrite tail_with_resp; [reflexivity | reflexivity | reflexivity | reflexivity]).
+        * (* not found: forwarded *)
+          rewrite run_cons. unfold Pipeline.run_stage at 1. cbn [ps_resp ps_dhcp_host ps_qname ps_calls ps_result ps_orig_q app].
+          destruct dhcp; [reflexivity|]. unfold forward_outcome.
+          destruct (up (q_name q) (q_qtype q)) as [r|]; [|reflexivity].
+          rewrite run_cons. unfold Pipeline.run_stage at 1.
+          cbn [ps_result ps_orig_q ps_resp ps_calls ps_orig_kept ps_from_upstream ps_logged ps_dhcp_host ps_qname ps_resp_qname negb].
+          unfold after_upstream. rewrite Er, orb_false_r.
+          destruct (negb (protection_on c) || negb (st_filtering (request_settings c q))); [reflexivity|].
+          destruct (filter_answer c (request_settings c q) (rs_answer r)) as [ans' [fr|]]; reflexivity.
+        * (* allow-listed: forwarded, the answer is not examined *)
+          rewrite run_cons. unfold Pipeline.run_stage at 1. cbn [ps_resp ps_dhcp_host ps_qname ps_calls ps_result ps_orig_q app].
+          destruct dhcp; [reflexivity|]. unfold forward_outcome.
+          destruct (up (q_name q) (q_qtype q)) as [r|]; [|reflexivity].
+          rewrite run_cons. unfold Pipeline.run_stage at 1. cbn [ps_result]. rewrite Er.
+          unfold after_upstream. rewrite Er. reflexivity.
+        * (* a block-list reason without the filtered flag: forwarded like an unmatched name *)
+          rewrite run_cons. unfold Pipeline.run_stage at 1. cbn [ps_resp ps_dhcp_host ps_qname ps_calls ps_result ps_orig_q app].
+          destruct dhcp; [reflexivity|]. unfold forward_outcome.
+          destruct (up (q_name q) (q_qtype q)) as [r|]; [|reflexivity].
+          rewrite run_cons. unfold Pipeline.run_stage at 1.
+          cbn [ps_result ps_orig_q ps_resp ps_calls ps_orig_kept ps_from_upstream ps_logged ps_dhcp_host ps_qname ps_resp_qname negb].
+          unfold after_upstream. rewrite Er, orb_false_r.
+          destruct (negb (protection_on c) || negb (st_filtering (request_settings c q))); [reflexivity|].
+          destruct (filter_answer c (request_settings c q) (rs_answer r)) as [ans' [fr|]]; reflexivity.
+        * rewrite run_cons. unfold Pipeline.run_stage at 1. cbn [ps_resp ps_dhcp_host ps_qname ps_calls ps_result ps_orig_q app].
+          destruct dhcp; [reflexivity|]. unfold forward_outcome.
+          destruct (up (q_name q) (q_qtype q)) as [r|]; [|reflexivity].
+          rewrite run_cons. unfold Pipeline.run_stage at 1.
+          cbn [ps_result ps_orig_q ps_resp ps_calls ps_orig_kept ps_from_upstream ps_logged ps_dhcp_host ps_qname ps_resp_qname negb].
+          unfold after_upstream. rewrite Er, orb_false_r.
+          destruct (negb (protection_on c) || negb (st_filtering (request_settings c q))); [reflexivity|].
+          destruct (filter_answer c (request_settings c q) (rs_answer r)) as [ans' [fr|]]; reflexivity.
+        * rewrite run_cons. unfold Pipeline.run_stage at 1. cbn [ps_resp ps_dhcp_host ps_qname ps_calls ps_result ps_orig_q app].
+          destruct dhcp; [reflexivity|]. unfold forward_outcome.
+          destruct (up (q_name q) (q_qtype q)) as [r|]; [|reflexivity].
+          rewrite run_cons. unfold Pipeline.run_stage at 1.
+          cbn [ps_result ps_orig_q ps_resp ps_calls ps_orig_kept ps_from_upstream ps_logged ps_dhcp_host ps_qname ps_resp_qname negb].
+          unfold after_upstream. rewrite Er, orb_false_r.
+          destruct (negb (protection_on c) || negb (st_filtering (request_settings c q))); [reflexivity|].
+          destruct (filter_answer c (request_settings c q) (rs_answer r)) as [ans' [fr|]]; reflexivity.
+        * rewrite run_cons. unfold Pipeline.run_stage at 1. cbn [ps_resp ps_dhcp_host ps_qname ps_calls ps_result ps_orig_q app].
+          destruct dhcp; [reflexivity|]. unfold forward_outcome.
+          destruct (up (q_name q) (q_qtype q)) as [r|]; [|reflexivity].
+          rewrite run_cons. unfold Pipeline.run_stage at 1.
+          cbn [ps_result ps_orig_q ps_resp ps_calls ps_orig_kept ps_from_upstream ps_logged ps_dhcp_host ps_qname ps_resp_qname negb].
+          unfold after_upstream. rewrite Er, orb_false_r.
+          destruct (negb (protection_on c) || negb (st_filtering (request_settings c q))); [reflexivity|].
+          destruct (filter_answer c (request_settings c q) (rs_answer r)) as [ans' [fr|]]; reflexivity.
+        * (* $dnsrewrite values *)
+          destruct (dns_rewrite_response c (q_name q) (q_qtype q) res) as [r|]; [|reflexivity].
+          erewrite tail_with_resp; [reflexivity | reflexivity | reflexivity | reflexivity].
+        * destruct (dns_rewrite_response c (q_name q) (q_qtype q) res) as [r|]; [|reflexivity].
+          erewrite tail_with_resp; [reflexivity | reflexivity | reflexivity | reflexivity].
+  Qed.
+
+  (** The whole pipeline is [process_spec]. *)
+  Theorem process_unfold c up q : process c up q = process_spec c up q.
+  Proof.
+    unfold Pipeline.process, process_spec, prefilter, stage_order, init_state.
+    rewrite run_cons. unfold Pipeline.run_stage at 1. unfold early, early_answer.
+    destruct (c_aaaa_disabled c && (q_qtype q =? tAAAA)); [reflexivity|].
+    destruct (((q_qtype q =? tA) || (q_qtype q =? tAAAA)) && eqb_bytes (q_name q) mozilla_fqdn); [reflexivity|].
+    destruct (eqb_bytes (q_name q) healthcheck_fqdn); [reflexivity|]. cbn [orb].
+    rewrite run_cons. unfold Pipeline.run_stage at 1. unfold ddr_answer.
+    destruct (c_ddr c) as [ids|].
+    - destruct (eqb_bytes (q_name q) ddr_fqdn); [reflexivity|].
+      (* DDR on, another name *)
+      rewrite run_cons. unfold Pipeline.run_stage at 1.
+      destruct (dhcp_host_from_request c q) as [host|].
+      + destruct (negb (q_private_client q)); [reflexivity|].
+        destruct (assoc_bytes (c_dhcp_hosts c) host) as [ip|].
+        * rewrite run_cons. unfold Pipeline.run_stage at 1. cbn [ps_resp set_resp].
+          erewrite tail_answered; [reflexivity | reflexivity | reflexivity | reflexivity].
+        * rewrite run_cons. unfold Pipeline.run_stage at 1. cbn [ps_resp]. unfold dhcp_addr_answer.
+          destruct (q_private_rdns q) as [a|]; [|apply filtering_tail].
+          destruct (negb (q_qtype q =? tPTR)); [apply filtering_tail|].
+          destruct (assoc_addr (c_dhcp_addrs c) a) as [[|x xs]|]; try apply filtering_tail.
+          erewrite tail_answered; [reflexivity | reflexivity | reflexivity | reflexivity].
+      + rewrite run_cons. unfold Pipeline.run_stage at 1. cbn [ps_resp]. unfold dhcp_addr_answer.
+        destruct (q_private_rdns q) as [a|]; [|apply filtering_tail].
+        destruct (negb (q_qtype q =? tPTR)); [apply filtering_tail|].
+        destruct (assoc_addr (c_dhcp_addrs c) a) as [[|x xs]|]; try apply filtering_tail.
+        erewrite tail_answered; [reflexivity | reflexivity | reflexivity | reflexivity].
+    - rewrite run_cons. unfold Pipeline.run_stage at 1.
+      destruct (dhcp_host_from_request c q) as [host|].
+      + destruct (negb (q_private_client q)); [reflexivity|].
+        destruct (assoc_bytes (c_dhcp_hosts c) host) as [ip|].
+        * rewrite run_cons. unfold Pipeline.run_stage at 1. cbn [ps_resp set_resp].
+          erewrite tail_answered; [reflexivity | reflexivity | reflexivity | reflexivity].
+        * rewrite run_cons. unfold Pipeline.run_stage at 1. cbn [ps_resp]. unfold dhcp_addr_answer.
+          destruct (q_private_rdns q) as [a|]; [|apply filtering_tail].
+          destruct (negb (q_qtype q =? tPTR)); [apply filtering_tail|].
+          destruct (assoc_addr (c_dhcp_addrs c) a) as [[|x xs]|]; try apply filtering_tail.
+          erewrite tail_answered; [reflexivity | reflexivity | reflexivity | reflexivity].
+      + rewrite run_cons. unfold Pipeline.run_stage at 1. cbn [ps_resp]. unfold dhcp_addr_answer.
+        destruct (q_private_rdns q) as [a|]; [|apply filtering_tail].
+        destruct (negb (q_qtype q =? tPTR)); [apply filtering_tail|].
+        destruct (assoc_addr (c_dhcp_addrs c) a) as [[|x xs]|]; try apply filtering_tail.
+        erewrite tail_answered; [reflexivity | reflexivity | reflexivity | reflexivity].
+  Qed.
+
+  (** * The verdict of CheckHost, declaratively *)
+
+  Definition verdict (c : cfg) (q : request) : option result :=
+    check_host c (request_settings c q) (trim_dot (q_name q)) (q_qtype q).
+
+  (** The legacy rewrites leave the name alone (or are not consulted because
+      filtering is off for the client). *)
+  Definition rewrites_pass (c : cfg) (st : settings) (host : bytes) (qt : N) : Prop :=
+    (if st_filtering st then legacy_rewrite c host qt else Some no_result) = Some no_result.
+
+  (** The hosts-file container has nothing for the name and type. *)
+  Definition hosts_silent (c : cfg) (st : settings) (host : bytes) (qt : N) : Prop :=
+    matched (match_sys_hosts c st host qt) = false.
+
+  (** No $dnsrewrite rule of the block lists applies to the name. *)
+  Definition no_dnsrewrite (st : settings) (host : bytes) (qt : N) : Prop :=
+    matched (dnsrewrite_result (fst (block_eng (rq_of st host qt))) host) = false.
 
   (** An allow-list rule matches the name. *)
   Definition allow_hit (st : settings) (host : bytes) (qt : N) : Prop :=
     st_filtering st = true /\ snd (allow_eng (rq_of st host qt)) = true.
 
-  (** No allow-list rule matches, and the block-list engine (block lists,
-      custom rules, hosts-style lines) reports a winning rule that is not an
-      exception. *)
+  (** No allow-list rule matches, no $dnsrewrite rule applies, and the
+      block-list engine (block lists, custom rules, hosts-style lines) reports
+      a winning rule that is not an exception. *)
   Definition list_blocked (st : settings) (host : bytes) (qt : N) : Prop :=
     st_filtering st = true /\
     snd (allow_eng (rq_of st host qt)) = false /\
+    no_dnsrewrite st host qt /\
     snd (block_eng (rq_of st host qt)) = true /\
     r_filtered (blocklist_result qt (fst (block_eng (rq_of st host qt)))) = true.
 
@@ -112,6 +470,7 @@ Section Engines.
   Definition lists_silent (st : settings) (host : bytes) (qt : N) : Prop :=
     st_filtering st = false \/
     (snd (allow_eng (rq_of st host qt)) = false /\
+     no_dnsrewrite st host qt /\
      (snd (block_eng (rq_of st host qt)) = false \/
       matched (blocklist_result qt (fst (block_eng (rq_of st host qt)))) = false)).
 
@@ -119,103 +478,35 @@ Section Engines.
   Definition service_blocked (st : settings) (host : bytes) : Prop :=
     exists name r, first_service (st_services st) host = Some (name, r).
 
+  (** The premise of C01: protection on; no earlier stage answers the request
+      (DDR, DHCP); the administrator's own rewrites (legacy rewrites, hosts
+      file, $dnsrewrite) do not apply to the name; and the rule lists block it,
+      or they are silent and a blocked service matches. *)
   Definition blocked_by_spec (c : cfg) (q : request) : Prop :=
-    let st := client_settings c q in
-    protection_on c = true /\ early c q = false /\ host_of q <> [] /\
+    let st := request_settings c q in
+    protection_on c = true /\ (exists dhcp, prefilter c q = PContinue dhcp) /\ host_of q <> [] /\
+    rewrites_pass c st (host_of q) (q_qtype q) /\ hosts_silent c st (host_of q) (q_qtype q) /\
     (list_blocked st (host_of q) (q_qtype q) \/
      (lists_silent st (host_of q) (q_qtype q) /\ service_blocked st (host_of q))).
 
-  (** * The pipeline unfolded *)
-
-  Definition the_call (q : request) : bytes * N := (q_name q, q_qtype q).
-
-  Definition after_upstream (c : cfg) (q : request) (res : result) (r : resp) : outcome :=
-    let st := client_settings c q in
-    match r_reason res with
-    | NotFilteredAllowList => mkOutcome (Some r) [the_call q] res false true
-    | _ =>
-        if negb (protection_on c) || negb (st_filtering st)
-        then mkOutcome (Some r) [the_call q] res false true
-        else
-          match filter_answer c st (rs_answer r) with
-          | (_, Some fr) =>
-              mkOutcome (Some (filter_message c (q_name q) (q_qtype q) fr)) [the_call q] fr true true
-          | (ans', None) =>
-              mkOutcome (Some (mkResp (rs_rcode r) ans' (rs_soa r))) [the_call q] res false true
-          end
-    end.
-
-  Lemma process_not_early c up q :
-    early c q = false ->
-    process c up q =
-    let st := client_settings c q in
-    let res := check_host st (trim_dot (q_name q)) (q_qtype q) in
-    if r_filtered res
-    then mkOutcome (Some (filter_message c (q_name q) (q_qtype q) res)) [] res false true
-    else match up (q_name q) (q_qtype q) with
-         | None => mkOutcome (Some servfail) [the_call q] res false false
-         | Some r => after_upstream c q res r
-         end.
-  Proof.
-    intros He.
-    set (outcome_of := fun p : pstate =>
-      mkOutcome (ps_resp p) (ps_calls p) (ps_result p) (ps_orig_kept p) (ps_logged p)).
-    change (process c up q) with
-      (outcome_of (run_stages allow_eng block_eng sb_oracle par_oracle c up q stage_order
-                     (mkPState None [] no_result false false false))).
-    unfold stage_order.
-    set (p0 := mkPState None [] no_result false false false).
-    assert (L1 : run_stage allow_eng block_eng sb_oracle par_oracle c up q StInitial p0 = (RcSuccess, p0)).
-    { unfold early in He.
-      apply orb_false_iff in He as [He H3]. apply orb_false_iff in He as [H1 H2].
-      unfold run_stage. rewrite H1, H2, H3. reflexivity. }
-    cbn [run_stages]. rewrite L1. cbv zeta.
-    set (st := client_settings c q).
-    set (res := check_host st (trim_dot (q_name q)) (q_qtype q)).
-    cbn [run_stages].
-    assert (L2 : run_stage allow_eng block_eng sb_oracle par_oracle c up q StFilterBefore p0 =
-                 (RcSuccess, mkPState (if r_filtered res then Some (filter_message c (q_name q) (q_qtype q) res) else None)
-                                      [] res false false false)).
-    { reflexivity. }
-    rewrite L2. clear L1 L2.
-    destruct (r_filtered res) eqn:Ef.
-    - (* answered locally: the upstream stage and response filtering do nothing *)
-      set (p1 := mkPState (Some (filter_message c (q_name q) (q_qtype q) res)) [] res false false false).
-      assert (L3 : run_stage allow_eng block_eng sb_oracle par_oracle c up q StUpstream p1 = (RcSuccess, p1)) by reflexivity.
-      rewrite L3.
-      assert (L4 : run_stage allow_eng block_eng sb_oracle par_oracle c up q StFilterAfter p1 = (RcSuccess, p1)).
-      { subst p1. unfold run_stage. cbn [ps_result ps_from_upstream negb]. rewrite orb_true_r. cbn [orb].
-        destruct (r_reason res); reflexivity. }
-      rewrite L4. reflexivity.
-    - set (p1 := mkPState None [] res false false false).
-      destruct (up (q_name q) (q_qtype q)) as [r|] eqn:Eu.
-      + set (p2 := mkPState (Some r) [the_call q] res false true false).
-        assert (L3 : run_stage allow_eng block_eng sb_oracle par_oracle c up q StUpstream p1 = (RcSuccess, p2)).
-        { unfold run_stage. cbn [ps_resp p1 ps_calls ps_result app]. rewrite Eu. reflexivity. }
-        rewrite L3. clear L3. unfold after_upstream. fold st. subst p2.
-        unfold run_stage at 1. cbn [ps_result ps_from_upstream ps_resp ps_calls negb]. rewrite orb_false_r.
-        fold st.
-        destruct (r_reason res) eqn:Er; try reflexivity;
-          (destruct (negb (protection_on c) || negb (st_filtering st)); [reflexivity|];
-           destruct (filter_answer c st (rs_answer r)) as [ans' [fr|]]; reflexivity).
-      + assert (L3 : run_stage allow_eng block_eng sb_oracle par_oracle c up q StUpstream p1 =
-                     (RcError, mkPState (Some servfail) [the_call q] res false false false)).
-        { unfold run_stage. cbn [ps_resp p1 ps_calls ps_result app]. rewrite Eu. reflexivity. }
-        rewrite L3. reflexivity.
-  Qed.
-
-  (** * check_host under the verdicts *)
-
-  Lemma check_host_unfold st host qt :
-    host <> [] ->
-    check_host st host qt =
-    let h := lower host in
-    if matched (match_host st h qt) then match_host st h qt
+  Lemma first_match_unfold c st h qt :
+    first_match c checker_order st h qt =
+    if matched (match_sys_hosts c st h qt) then match_sys_hosts c st h qt
+    else if matched (match_host st h qt) then match_host st h qt
     else if matched (match_services st h) then match_services st h
     else if matched (check_safebrowsing sb_oracle st h) then check_safebrowsing sb_oracle st h
     else if matched (check_parental par_oracle st h) then check_parental par_oracle st h
+    else if matched (check_safesearch ss_oracle c st h qt) then check_safesearch ss_oracle c st h qt
     else no_result.
-  Proof. intros Hh. unfold Pipeline.check_host. destruct host; [congruence|]. reflexivity. Qed.
+  Proof. reflexivity. Qed.
+
+  Lemma check_host_unfold c st host qt :
+    host <> [] -> rewrites_pass c st (lower host) qt ->
+    check_host c st host qt = Some (first_match c checker_order st (lower host) qt).
+  Proof.
+    intros Hh Hr. unfold Pipeline.check_host. destruct host; [congruence|].
+    unfold rewrites_pass in Hr. rewrite Hr. reflexivity.
+  Qed.
 
   Lemma lower_nonempty s : lower s <> [] -> s <> [].
   Proof. destruct s; cbn; congruence. Qed.
@@ -224,8 +515,8 @@ Section Engines.
     st_protection st = true -> list_blocked st host qt ->
     match_host st host qt = blocklist_result qt (fst (block_eng (rq_of st host qt))).
   Proof.
-    intros Hp (Hf & Ha & Hb & _). unfold Pipeline.match_host. fold (rq_of st host qt).
-    rewrite Hf, Hp. cbn [negb]. rewrite Ha, Hb. reflexivity.
+    intros Hp (Hf & Ha & Hn & Hb & _). unfold Pipeline.match_host. fold (rq_of st host qt).
+    rewrite Hf, Hp. cbn [negb]. rewrite Ha. unfold no_dnsrewrite in Hn. rewrite Hn, Hb. reflexivity.
   Qed.
 
   Lemma blocklist_result_filtered qt dr :
@@ -238,20 +529,20 @@ Section Engines.
     destruct (qt =? tAAAA); destruct (dr_v6 dr), (dr_v4 dr); cbn; intros; try discriminate; auto.
   Qed.
 
-  Lemma matched_filtered r : r_filtered r = true -> r_reason r = FilteredBlockList -> matched r = true.
-  Proof. intros _ H. unfold matched. rewrite H. reflexivity. Qed.
+  Lemma matched_reason r : r_reason r = FilteredBlockList -> matched r = true.
+  Proof. intros H. unfold matched. rewrite H. reflexivity. Qed.
 
   Lemma match_host_silent st host qt :
     lists_silent st host qt -> matched (match_host st host qt) = false.
   Proof.
     unfold Pipeline.match_host. fold (rq_of st host qt).
-    intros [Hf | (Ha & Hb)].
+    intros [Hf | (Ha & Hn & Hb)].
     - rewrite Hf. reflexivity.
-    - destruct (st_filtering st); [|reflexivity]. cbn [negb].
+    - destruct (st_filtering st); [|reflexivity]. cbn [negb]. unfold no_dnsrewrite in Hn.
       destruct (st_protection st).
-      + rewrite Ha. destruct Hb as [Hb|Hb]; [rewrite Hb; reflexivity|].
+      + rewrite Ha, Hn. destruct Hb as [Hb|Hb]; [rewrite Hb; reflexivity|].
         destruct (snd (block_eng (rq_of st host qt))); [exact Hb | reflexivity].
-      + cbn [snd]. destruct (snd (block_eng (rq_of st host qt))); reflexivity.
+      + cbn [snd]. rewrite Hn. destruct (snd (block_eng (rq_of st host qt))); reflexivity.
   Qed.
 
   Lemma client_settings_protection c q : st_protection (client_settings c q) = protection_on c.
@@ -260,154 +551,417 @@ Section Engines.
     destruct (pc_use_own_settings p); reflexivity.
   Qed.
 
+  Lemma request_settings_protection c q : st_protection (request_settings c q) = protection_on c.
+  Proof.
+    unfold request_settings. destruct (q_private_rdns q); [|apply client_settings_protection].
+    unfold rdns_settings. cbn [st_protection]. apply client_settings_protection.
+  Qed.
+
+  Lemma request_settings_filtering c q : st_filtering (request_settings c q) = st_filtering (client_settings c q).
+  Proof. unfold request_settings. destruct (q_private_rdns q); reflexivity. Qed.
+
   (** The verdict of the request stage for a query blocked by the spec. *)
   Lemma check_host_blocked c q :
     blocked_by_spec c q ->
-    let res := check_host (client_settings c q) (trim_dot (q_name q)) (q_qtype q) in
-    r_filtered res = true /\ rule_reason (r_reason res).
+    exists res, verdict c q = Some res /\ r_filtered res = true /\ rule_reason (r_reason res).
   Proof.
-    intros (Hp & _ & Hh & Hv). cbv zeta.
-    assert (Hp' := client_settings_protection c q). rewrite Hp in Hp'.
-    unfold host_of in *. rewrite check_host_unfold by (apply lower_nonempty; exact Hh).
-    cbv zeta. set (st := client_settings c q) in *. set (h := lower (trim_dot (q_name q))) in *.
+    intros (Hp & _ & Hh & Hrw & Hhs & Hv). unfold verdict.
+    assert (Hp' := request_settings_protection c q). rewrite Hp in Hp'.
+    unfold host_of in *. rewrite (check_host_unfold _ _ _ _ (lower_nonempty _ Hh) Hrw).
+    eexists. split; [reflexivity|]. rewrite first_match_unfold.
+    set (st := request_settings c q) in *. set (h := lower (trim_dot (q_name q))) in *.
+    unfold hosts_silent in Hhs. rewrite Hhs.
     destruct Hv as [Hl | [Hs (name & r & Hsvc)]].
     - rewrite (match_host_list_blocked _ _ _ Hp' Hl).
-      destruct Hl as (_ & _ & _ & Hfil).
+      destruct Hl as (_ & _ & _ & _ & Hfil).
       destruct (blocklist_result_filtered _ _ Hfil) as [Hr _].
-      rewrite (matched_filtered _ Hfil Hr). split; [exact Hfil | left; exact Hr].
+      rewrite (matched_reason _ Hr). split; [exact Hfil | left; exact Hr].
     - rewrite (match_host_silent _ _ _ Hs).
       unfold match_services. rewrite Hp'. cbn [negb]. rewrite Hsvc. cbn.
       split; [reflexivity | right; reflexivity].
   Qed.
 
+  Lemma rule_reason_not_cname res : rule_reason (r_reason res) -> is_rewritten_cname res = false.
+  Proof. unfold is_rewritten_cname. intros [-> | ->]; reflexivity. Qed.
+
   (** * C01 *)
 
   (** A query blocked by the rule lists or a blocked service is answered
       locally with the synthetic answer of the blocking mode; nothing is sent
-      upstream. *)
+      upstream; the question is the client's. *)
   Theorem blocked_is_local c up q :
     blocked_by_spec c q ->
     let o := process c up q in
     o_calls o = [] /\
     r_filtered (o_result o) = true /\ rule_reason (r_reason (o_result o)) /\
-    o_resp o = Some (synthetic c (q_name q) (q_qtype q) (ips_from_rules (o_result o))).
+    o_resp o = Some (synthetic c (q_name q) (q_qtype q) (ips_from_rules (o_result o))) /\
+    o_qname o = q_name q.
   Proof.
-    intros Hb. pose proof (check_host_blocked c q Hb) as [Hf Hr]. cbv zeta in Hf, Hr.
-    destruct Hb as (_ & He & _). cbv zeta.
-    rewrite (process_not_early c up q He). cbv zeta. rewrite Hf. cbn [o_calls o_result o_resp].
-    repeat split; try assumption. rewrite (filter_message_synthetic _ _ _ _ Hr). reflexivity.
+    intros Hb. destruct (check_host_blocked c q Hb) as (res & Hv & Hf & Hr).
+    destruct Hb as (_ & [dhcp Hpre] & _). cbv zeta.
+    rewrite process_unfold. unfold process_spec. rewrite Hpre. fold (verdict c q). rewrite Hv.
+    unfold verdict_outcome. rewrite (rule_reason_not_cname _ Hr), Hf.
+    rewrite (filter_message_synthetic _ _ _ _ _ Hr). cbn [fst snd o_calls o_result o_resp o_qname].
+    repeat split; assumption.
   Qed.
 
   (** ... and the whole outcome is independent of the upstream. *)
   Theorem no_upstream_data c up1 up2 q :
     blocked_by_spec c q -> process c up1 q = process c up2 q.
   Proof.
-    intros Hb. pose proof (check_host_blocked c q Hb) as [Hf _]. cbv zeta in Hf.
-    destruct Hb as (_ & He & _).
-    rewrite !(process_not_early _ _ _ He). cbv zeta. rewrite Hf. reflexivity.
+    intros Hb. destruct (check_host_blocked c q Hb) as (res & Hv & Hf & Hr).
+    destruct Hb as (_ & [dhcp Hpre] & _).
+    rewrite !process_unfold. unfold process_spec. rewrite Hpre. fold (verdict c q). rewrite Hv.
+    unfold verdict_outcome. rewrite (rule_reason_not_cname _ Hr), Hf.
+    rewrite !(filter_message_synthetic _ _ _ _ _ Hr). reflexivity.
   Qed.
 
-  (** Not blocked at the request stage: the verdict of the request stage is
-      not "filtered" (allow rule, or nothing matched). *)
-  Definition passes_request_stage (c : cfg) (q : request) : Prop :=
-    early c q = false /\
-    r_filtered (check_host (client_settings c q) (trim_dot (q_name q)) (q_qtype q)) = false.
+  (** Every question the pipeline puts to the upstream, for every
+      configuration (all features on) and request: the client's own question
+      when the verdict neither filters nor rewrites it; the target of a
+      rewrite (legacy, $dnsrewrite CNAME, safe search); the name of the block
+      page of safe browsing / parental control.  Nothing else, ever. *)
+  Definition spec_calls (c : cfg) (q : request) : list (bytes * N) :=
+    match prefilter c q with
+    | PContinue dhcp =>
+        match verdict c q with
+        | None => []
+        | Some res =>
+            if is_rewritten_cname res then (if dhcp then [] else [(fqdn (r_canon res), q_qtype q)])
+            else if r_filtered res then blockpage_calls c (q_qtype q) res
+            else match r_reason res with
+                 | RewrittenLegacy | FilteredSafeSearch | RewrittenRule | RewrittenAutoHosts => []
+                 | _ => if dhcp then [] else [the_call q]
+                 end
+        end
+    | _ => []
+    end.
 
-  (** Sufficient, in terms of the engines: an allow-list rule matches (and
-      protection is on), or nothing at all concerns the name. *)
-  Lemma allow_hit_passes c q :
-    early c q = false -> protection_on c = true -> host_of q <> [] ->
-    allow_hit (client_settings c q) (host_of q) (q_qtype q) ->
-    passes_request_stage c q /\
-    r_reason (check_host (client_settings c q) (trim_dot (q_name q)) (q_qtype q)) = NotFilteredAllowList.
+  Lemma after_upstream_calls c up q res r : o_calls (after_upstream c up q res r) = [the_call q].
   Proof.
-    intros He Hp Hh (Hf & Ha). unfold passes_request_stage, host_of in *.
-    rewrite check_host_unfold by (apply lower_nonempty; exact Hh). cbv zeta.
-    set (st := client_settings c q) in *. set (h := lower (trim_dot (q_name q))) in *.
-    assert (Hm : match_host st h (q_qtype q) = allowlist_result (fst (allow_eng (rq_of st h (q_qtype q))))).
-    { unfold Pipeline.match_host. fold (rq_of st h (q_qtype q)).
-      assert (Hpp : st_protection st = true) by (unfold st; rewrite client_settings_protection; exact Hp).
-      rewrite Hf, Hpp. cbn [negb]. rewrite Ha. reflexivity. }
-    rewrite Hm. cbn. auto.
-  Qed.
-
-  Definition nothing_matches (c : cfg) (q : request) : Prop :=
-    let st := client_settings c q in
-    lists_silent st (host_of q) (q_qtype q) /\
-    first_service (st_services st) (host_of q) = None /\
-    (st_safebrowsing st = false \/ sb_oracle (host_of q) = false) /\
-    (st_parental st = false \/ par_oracle (host_of q) = false).
-
-  Lemma nothing_matches_passes c q :
-    early c q = false -> nothing_matches c q ->
-    passes_request_stage c q /\
-    check_host (client_settings c q) (trim_dot (q_name q)) (q_qtype q) = no_result.
-  Proof.
-    intros He (Hs & Hsvc & Hsb & Hpar). unfold passes_request_stage, host_of in *.
-    assert (Hres : check_host (client_settings c q) (trim_dot (q_name q)) (q_qtype q) = no_result).
-    { destruct (trim_dot (q_name q)) as [|x xs] eqn:Et; [reflexivity|].
-      rewrite check_host_unfold by discriminate. cbv zeta.
-      rewrite (match_host_silent _ _ _ Hs).
-      unfold match_services. rewrite Hsvc.
-      assert (Hsv : matched (if negb (st_protection (client_settings c q)) then no_result else no_result) = false)
-        by (destruct (negb _); reflexivity).
-      rewrite Hsv.
-      unfold check_safebrowsing, check_parental.
-      assert (H1 : st_protection (client_settings c q) && st_safebrowsing (client_settings c q) && sb_oracle (lower (x :: xs)) = false).
-      { destruct Hsb as [-> | ->]; rewrite ?andb_false_r; reflexivity. }
-      assert (H2 : st_protection (client_settings c q) && st_parental (client_settings c q) && par_oracle (lower (x :: xs)) = false).
-      { destruct Hpar as [-> | ->]; rewrite ?andb_false_r; reflexivity. }
-      rewrite H1, H2. reflexivity. }
-    rewrite Hres. repeat split; auto.
-  Qed.
-
-  (** A query that passes the request stage is forwarded exactly once, with
-      its own name and type; an upstream failure gives SERVFAIL. *)
-  Theorem forwarded_once c up q :
-    passes_request_stage c q ->
-    o_calls (process c up q) = [the_call q] /\
-    (up (q_name q) (q_qtype q) = None -> o_resp (process c up q) = Some servfail).
-  Proof.
-    intros [He Hf]. rewrite (process_not_early _ _ _ He). cbv zeta. rewrite Hf.
-    destruct (up (q_name q) (q_qtype q)) as [r|]; [|split; reflexivity].
-    split; [|discriminate]. unfold after_upstream.
-    destruct (r_reason _); try reflexivity;
+    unfold after_upstream. destruct (r_reason res); try reflexivity;
       (destruct (negb (protection_on c) || negb _); [reflexivity|];
        destruct (filter_answer _ _ _) as [a [f|]]; reflexivity).
   Qed.
 
-  (** Allow-listed: the upstream answer is delivered exactly as it came. *)
-  Theorem allowlisted_intact c up q r :
-    passes_request_stage c q ->
-    r_reason (check_host (client_settings c q) (trim_dot (q_name q)) (q_qtype q)) = NotFilteredAllowList ->
-    up (q_name q) (q_qtype q) = Some r ->
-    o_resp (process c up q) = Some r /\ r_reason (o_result (process c up q)) = NotFilteredAllowList.
+  Lemma forward_outcome_calls c up q res : o_calls (forward_outcome c up q res) = [the_call q].
+  Proof. unfold forward_outcome. destruct (up _ _); [apply after_upstream_calls | reflexivity]. Qed.
+
+  Theorem upstream_calls_spec c up q : o_calls (process c up q) = spec_calls c q.
   Proof.
-    intros [He Hf] Hr Hu. rewrite (process_not_early _ _ _ He). cbv zeta. rewrite Hf, Hu.
-    unfold after_upstream. rewrite Hr. split; [reflexivity | exact Hr].
+    rewrite process_unfold. unfold process_spec, spec_calls, verdict.
+    destruct (prefilter c q) as [r|r|dhcp]; try reflexivity.
+    destruct (check_host c _ _ _) as [res|]; [|reflexivity].
+    unfold verdict_outcome.
+    destruct (is_rewritten_cname res).
+    - destruct dhcp; [reflexivity|]. destruct (up _ _); reflexivity.
+    - destruct (r_filtered res).
+      + cbn [o_calls]. apply filter_message_calls.
+      + destruct (r_reason res); try reflexivity;
+          try (destruct dhcp; [reflexivity | apply forward_outcome_calls]);
+          destruct (dns_rewrite_response _ _ _ _); reflexivity.
   Qed.
 
-  (** With protection off nothing is blocked: whatever the engines and
-      oracles say, the query is forwarded and the upstream answer delivered
-      unchanged. *)
+  (** Whatever the verdict: a request whose verdict is "filtered" by a rule
+      list or a blocked service never reaches the upstream. *)
+  Corollary filtered_never_forwarded c up q res :
+    verdict c q = Some res -> r_filtered res = true -> rule_reason (r_reason res) ->
+    o_calls (process c up q) = [].
+  Proof.
+    intros Hv Hf Hr. rewrite upstream_calls_spec. unfold spec_calls. rewrite Hv.
+    destruct (prefilter c q); try reflexivity.
+    rewrite (rule_reason_not_cname _ Hr), Hf. unfold blockpage_calls.
+    destruct (addr_question _); [|reflexivity]. destruct Hr as [-> | ->]; reflexivity.
+  Qed.
+
+  (** The stages in front of filtering (early answers, DDR, DHCP hosts and
+      addresses) answer locally: nothing is forwarded, blocked name or not. *)
+  Corollary local_stages_never_forward c up q :
+    (forall dhcp, prefilter c q <> PContinue dhcp) -> o_calls (process c up q) = [].
+  Proof.
+    intros H. rewrite upstream_calls_spec. unfold spec_calls.
+    destruct (prefilter c q) as [r|r|dhcp]; try reflexivity. exfalso. apply (H dhcp). reflexivity.
+  Qed.
+
+  (** Safe browsing / parental control with the block page given as a name:
+      the only question sent upstream is for the block page's name (with the
+      type of the client's question); the blocked name itself is not sent. *)
+  Corollary blockpage_lookup_only c up q res :
+    verdict c q = Some res -> r_filtered res = true ->
+    (r_reason res = FilteredSafeBrowsing \/ r_reason res = FilteredParental) ->
+    forall call, In call (o_calls (process c up q)) ->
+    exists n, (c_sb_host c = BHName n \/ c_par_host c = BHName n) /\ call = (fqdn n, q_qtype q).
+  Proof.
+    intros Hv Hf Hr call. rewrite upstream_calls_spec. unfold spec_calls. rewrite Hv.
+    destruct (prefilter c q); [intros [] | intros [] |].
+    assert (Hc : is_rewritten_cname res = false) by (unfold is_rewritten_cname; destruct Hr as [-> | ->]; reflexivity).
+    rewrite Hc, Hf. unfold blockpage_calls. destruct (addr_question _); [|intros []].
+    destruct Hr as [-> | ->].
+    - destruct (c_sb_host c) as [|a|n] eqn:E; [intros [] | intros [] |].
+      intros [<-|[]]. exists n. split; [left; reflexivity | reflexivity].
+    - destruct (c_par_host c) as [|a|n] eqn:E; [intros [] | intros [] |].
+      intros [<-|[]]. exists n. split; [right; reflexivity | reflexivity].
+  Qed.
+
+  (** * Rewrites and blocking *)
+
+  (** The outcome for a request the administrator's legacy rewrites apply
+      to.  No engine, verdict oracle or block list takes part: a name that is
+      both rewritten and on a block list follows the rewrite. *)
+  Definition rewritten_outcome (c : cfg) (up : upstream) (q : request) (dhcp : bool) (res : result) : outcome :=
+    let name := q_name q in
+    let qt := q_qtype q in
+    if is_rewritten_cname res then
+      let cn := fqdn (r_canon res) in
+      if dhcp then dhcp_nx res cn
+      else match up cn qt with
+           | None => mkOutcome (Some servfail) [(cn, qt)] res false false name
+           | Some r =>
+               mkOutcome (Some (mkResp (rs_rcode r) (rec_cname c name (r_canon res) :: rs_answer r) (rs_soa r)))
+                         [(cn, qt)] res false true name
+           end
+    else mkOutcome (Some (cname_with_ips c name qt (r_iplist res) (r_canon res))) [] res false true name.
+
+  Lemma legacy_rewrite_shape c host qt r :
+    legacy_rewrite c host qt = Some r -> matched r = true ->
+    r_reason r = RewrittenLegacy /\ r_filtered r = false.
+  Proof.
+    unfold Pipeline.legacy_rewrite.
+    destruct (Rewrites.process_rewrites rw_sort (c_rewrites c) host qt) as [x|]; [|discriminate].
+    destruct (Rewrites.r_reason x); intros [= <-]; [discriminate | split; reflexivity].
+  Qed.
+
+  Theorem legacy_rewrite_decides c up q dhcp r :
+    prefilter c q = PContinue dhcp -> host_of q <> [] ->
+    st_filtering (request_settings c q) = true ->
+    legacy_rewrite c (host_of q) (q_qtype q) = Some r -> matched r = true ->
+    process c up q = rewritten_outcome c up q dhcp r /\ r_reason r = RewrittenLegacy.
+  Proof.
+    intros Hpre Hh Hf Hrw Hm. destruct (legacy_rewrite_shape _ _ _ _ Hrw Hm) as [Hr Hfl].
+    split; [|exact Hr].
+    rewrite process_unfold. unfold process_spec. rewrite Hpre.
+    assert (Hv : check_host c (request_settings c q) (trim_dot (q_name q)) (q_qtype q) = Some r).
+    { unfold Pipeline.check_host, host_of in *. destruct (trim_dot (q_name q)) eqn:E; [cbn in Hh; congruence|].
+      rewrite Hf, Hrw, Hm. reflexivity. }
+    rewrite Hv. unfold verdict_outcome, rewritten_outcome.
+    destruct (is_rewritten_cname r); [reflexivity|]. rewrite Hfl, Hr. reflexivity.
+  Qed.
+
+  (** Any rewritten question (legacy rewrite to a CNAME without addresses,
+      $dnsrewrite CNAME, safe-search CNAME): the target is resolved instead of
+      the client's name, the client's question is put back and the CNAME is put
+      in front of whatever the upstream answered; those records are NOT
+      response-filtered. *)
+  Theorem rewritten_cname_outcome c up q res r :
+    prefilter c q = PContinue false -> verdict c q = Some res -> is_rewritten_cname res = true ->
+    up (fqdn (r_canon res)) (q_qtype q) = Some r ->
+    let o := process c up q in
+    o_resp o = Some (mkResp (rs_rcode r) (rec_cname c (q_name q) (r_canon res) :: rs_answer r) (rs_soa r)) /\
+    o_calls o = [(fqdn (r_canon res), q_qtype q)] /\ o_result o = res /\
+    o_orig_kept o = false /\ o_qname o = q_name q.
+  Proof.
+    intros Hpre Hv Hc Hu. cbv zeta. rewrite process_unfold. unfold process_spec. rewrite Hpre.
+    fold (verdict c q). rewrite Hv. unfold verdict_outcome. rewrite Hc, Hu. repeat split.
+  Qed.
+
+  (** $dnsrewrite results never carry the filtered flag ... *)
+  Lemma process_dns_rewrites_shape rs : forall vals rules,
+    let r := process_dns_rewrites rs vals rules in
+    r_filtered r = false /\ r_reason r = RewrittenRule.
+  Proof.
+    induction rs as [|nr rs IH]; intros vals rules; cbn [process_dns_rewrites]; [split; reflexivity|].
+    destruct (the_drw nr) as [[|p]|n|a]; try (split; reflexivity); apply IH.
+  Qed.
+
+  Lemma dnsrewrite_result_not_filtered dr host : r_filtered (dnsrewrite_result dr host) = false.
+  Proof.
+    unfold dnsrewrite_result. destruct (dns_rewrites dr) as [|x l]; [reflexivity|].
+    destruct (eqb_bytes _ host); [reflexivity|]. apply process_dns_rewrites_shape.
+  Qed.
+
+  (** ... so a $dnsrewrite rule that applies to a name or address shadows
+      every block rule for it: the check used on answer records (and at the
+      request stage) reports "not filtered". *)
+  Theorem dnsrewrite_shadows_block st host qt :
+    snd (if st_protection st then allow_eng (rq_of st host qt) else (empty_result, false)) = false ->
+    matched (dnsrewrite_result (fst (block_eng (rq_of st host qt))) host) = true ->
+    r_filtered (match_host st host qt) = false.
+  Proof.
+    intros Ha Hm. unfold Pipeline.match_host. fold (rq_of st host qt).
+    destruct (negb (st_filtering st)); [reflexivity|]. rewrite Ha, Hm.
+    apply dnsrewrite_result_not_filtered.
+  Qed.
+
+  (** * Forwarded queries *)
+
+  (** The request reaches the upstream stage with its own question: no
+      earlier stage answered it, and the verdict is "allow-listed" or
+      "nothing matched". *)
+  Definition passes_request_stage (c : cfg) (q : request) (res : result) : Prop :=
+    prefilter c q = PContinue false /\ verdict c q = Some res /\ r_filtered res = false /\
+    (r_reason res = NotFilteredNotFound \/ r_reason res = NotFilteredAllowList).
+
+  Lemma passes_not_cname c q res : passes_request_stage c q res -> is_rewritten_cname res = false.
+  Proof. intros (_ & _ & _ & [H|H]); unfold is_rewritten_cname; rewrite H; reflexivity. Qed.
+
+  Lemma passes_outcome c up q res :
+    passes_request_stage c q res -> process c up q = forward_outcome c up q res.
+  Proof.
+    intros Hp. pose proof (passes_not_cname _ _ _ Hp) as Hc. destruct Hp as (Hpre & Hv & Hf & Hr).
+    rewrite process_unfold. unfold process_spec. rewrite Hpre. fold (verdict c q). rewrite Hv.
+    unfold verdict_outcome. rewrite Hc, Hf. destruct Hr as [-> | ->]; reflexivity.
+  Qed.
+
+  Lemma allow_hit_passes c q :
+    prefilter c q = PContinue false -> protection_on c = true -> host_of q <> [] ->
+    rewrites_pass c (request_settings c q) (host_of q) (q_qtype q) ->
+    hosts_silent c (request_settings c q) (host_of q) (q_qtype q) ->
+    allow_hit (request_settings c q) (host_of q) (q_qtype q) ->
+    exists res, passes_request_stage c q res /\ r_reason res = NotFilteredAllowList.
+  Proof.
+    intros Hpre Hp Hh Hrw Hhs (Hf & Ha). unfold passes_request_stage, verdict, host_of in *.
+    rewrite (check_host_unfold _ _ _ _ (lower_nonempty _ Hh) Hrw). rewrite first_match_unfold.
+    set (st := request_settings c q) in *. set (h := lower (trim_dot (q_name q))) in *.
+    unfold hosts_silent in Hhs. rewrite Hhs.
+    assert (Hm : match_host st h (q_qtype q) = allowlist_result (fst (allow_eng (rq_of st h (q_qtype q))))).
+    { unfold Pipeline.match_host. fold (rq_of st h (q_qtype q)).
+      assert (Hpp : st_protection st = true) by (unfold st; rewrite request_settings_protection; exact Hp).
+      rewrite Hf, Hpp. cbn [negb]. rewrite Ha. reflexivity. }
+    rewrite Hm. cbn. eexists. repeat split; auto.
+  Qed.
+
+  Definition nothing_matches (c : cfg) (q : request) : Prop :=
+    let st := request_settings c q in
+    rewrites_pass c st (host_of q) (q_qtype q) /\ hosts_silent c st (host_of q) (q_qtype q) /\
+    lists_silent st (host_of q) (q_qtype q) /\
+    first_service (st_services st) (host_of q) = None /\
+    (st_safebrowsing st = false \/ sb_oracle (host_of q) = false) /\
+    (st_parental st = false \/ par_oracle (host_of q) = false) /\
+    (st_safesearch st = false \/ ss_oracle (host_of q) (q_qtype q) = None).
+
+  Lemma nothing_matches_verdict c q : nothing_matches c q -> verdict c q = Some no_result.
+  Proof.
+    intros (Hrw & Hhs & Hs & Hsvc & Hsb & Hpar & Hss). unfold verdict, host_of in *.
+    destruct (trim_dot (q_name q)) as [|x xs] eqn:Et; [reflexivity|].
+    assert (Hne : x :: xs <> []) by discriminate.
+    rewrite (check_host_unfold _ _ _ _ Hne Hrw). f_equal. rewrite first_match_unfold.
+    unfold hosts_silent in Hhs. rewrite Hhs, (match_host_silent _ _ _ Hs).
+    unfold match_services. rewrite Hsvc.
+    assert (Hsv : matched (if negb (st_protection (request_settings c q)) then no_result else no_result) = false)
+      by (destruct (negb _); reflexivity).
+    rewrite Hsv.
+    unfold check_safebrowsing, check_parental, check_safesearch.
+    assert (H1 : st_protection (request_settings c q) && st_safebrowsing (request_settings c q) && sb_oracle (lower (x :: xs)) = false).
+    { destruct Hsb as [-> | ->]; rewrite ?andb_false_r; reflexivity. }
+    assert (H2 : st_protection (request_settings c q) && st_parental (request_settings c q) && par_oracle (lower (x :: xs)) = false).
+    { destruct Hpar as [-> | ->]; rewrite ?andb_false_r; reflexivity. }
+    rewrite H1, H2. cbn [matched r_reason no_result].
+    destruct (negb (st_protection (request_settings c q)) || negb (st_safesearch (request_settings c q))) eqn:Eg;
+      [reflexivity|].
+    destruct Hss as [Hss|Hss].
+    - rewrite Hss in Eg. rewrite orb_true_r in Eg. discriminate.
+    - rewrite Hss. reflexivity.
+  Qed.
+
+  Lemma nothing_matches_passes c q :
+    prefilter c q = PContinue false -> nothing_matches c q -> passes_request_stage c q no_result.
+  Proof.
+    intros Hpre Hn. unfold passes_request_stage. rewrite (nothing_matches_verdict _ _ Hn).
+    repeat split; auto.
+  Qed.
+
+  (** A query that passes the request stage is forwarded exactly once, with
+      its own name and type; an upstream failure gives SERVFAIL. *)
+  Theorem forwarded_once c up q res :
+    passes_request_stage c q res ->
+    o_calls (process c up q) = [the_call q] /\ o_qname (process c up q) = q_name q /\
+    (up (q_name q) (q_qtype q) = None -> o_resp (process c up q) = Some servfail).
+  Proof.
+    intros Hp. rewrite (passes_outcome _ _ _ _ Hp). split; [apply forward_outcome_calls|].
+    unfold forward_outcome. destruct (up (q_name q) (q_qtype q)) as [r|]; [|split; reflexivity].
+    split; [|discriminate]. unfold after_upstream.
+    destruct (r_reason res); try reflexivity;
+      (destruct (negb (protection_on c) || negb _); [reflexivity|];
+       destruct (filter_answer _ _ _) as [a [f|]]; reflexivity).
+  Qed.
+
+  (** Allow-listed: the upstream answer is delivered exactly as it came, with
+      the client's question. *)
+  Theorem allowlisted_intact c up q res r :
+    passes_request_stage c q res -> r_reason res = NotFilteredAllowList ->
+    up (q_name q) (q_qtype q) = Some r ->
+    o_resp (process c up q) = Some r /\ o_result (process c up q) = res /\
+    o_qname (process c up q) = q_name q.
+  Proof.
+    intros Hp Hr Hu. rewrite (passes_outcome _ _ _ _ Hp). unfold forward_outcome. rewrite Hu.
+    unfold after_upstream. rewrite Hr. repeat split.
+  Qed.
+
+  Lemma first_match_protection_off c st h qt :
+    st_protection st = false ->
+    let r := first_match c checker_order st h qt in
+    r_filtered r = false /\
+    (r_reason r = NotFilteredNotFound \/ r_reason r = RewrittenLegacy \/
+     r_reason r = RewrittenAutoHosts \/ r_reason r = RewrittenRule).
+  Proof.
+    intros Hst. cbv zeta. rewrite first_match_unfold.
+    assert (Hh : let r := match_sys_hosts c st h qt in
+                 r_filtered r = false /\ (r_reason r = NotFilteredNotFound \/ r_reason r = RewrittenAutoHosts)).
+    { cbv zeta. unfold match_sys_hosts. destruct (negb _ || negb _); [auto|].
+      destruct (_ || _); [destruct (assoc_bytes _ _) as [[|a l]|]; cbn; auto|].
+      destruct (qt =? tPTR); [|auto].
+      destruct (assoc_bytes _ _); [|auto]. destruct (assoc_addr _ _) as [[|n l]|]; cbn; auto. }
+    destruct (matched (match_sys_hosts c st h qt)) eqn:E1.
+    { destruct Hh as [H1 [H2|H2]]; split; auto. }
+    assert (Hm : let r := match_host st h qt in
+                 r_filtered r = false /\ (r_reason r = NotFilteredNotFound \/ r_reason r = RewrittenRule)).
+    { cbv zeta. unfold Pipeline.match_host. rewrite Hst. cbn [negb snd].
+      destruct (negb (st_filtering st)); [auto|].
+      set (dr := dnsrewrite_result _ h).
+      destruct (matched dr) eqn:Ed.
+      - split; [apply dnsrewrite_result_not_filtered|]. subst dr. unfold dnsrewrite_result in *.
+        destruct (dns_rewrites _) as [|y l]; [discriminate|].
+        destruct (eqb_bytes _ h); [discriminate|]. right. apply process_dns_rewrites_shape.
+      - destruct (negb (snd _)); auto. }
+    destruct (matched (match_host st h qt)) eqn:E2.
+    { destruct Hm as [H1 [H2|H2]]; split; auto. }
+    unfold match_services, check_safebrowsing, check_parental, check_safesearch. rewrite Hst. cbn. auto.
+  Qed.
+
+  (** With protection off nothing is blocked, whatever the engines and
+      oracles say: no verdict carries a blocking or allow-list reason.  (The
+      administrator's rewrites - legacy rewrites, hosts file, $dnsrewrite -
+      still apply, as in the code.) *)
+  Theorem protection_off_blocks_nothing c q res :
+    protection_on c = false -> verdict c q = Some res ->
+    r_filtered res = false /\
+    (r_reason res = NotFilteredNotFound \/ r_reason res = RewrittenLegacy \/
+     r_reason res = RewrittenAutoHosts \/ r_reason res = RewrittenRule).
+  Proof.
+    intros Hp. unfold verdict.
+    assert (Hst := request_settings_protection c q). rewrite Hp in Hst.
+    set (st := request_settings c q) in *.
+    unfold Pipeline.check_host. destruct (trim_dot (q_name q)) as [|x xs]; [intros [= <-]; auto|].
+    cbv beta iota zeta. set (h := lower (x :: xs)).
+    destruct (if st_filtering st then legacy_rewrite c h (q_qtype q) else Some no_result) as [rw|] eqn:Erw; [|discriminate].
+    destruct (matched rw) eqn:Em.
+    - intros [= <-]. destruct (st_filtering st); [|inversion Erw; subst; discriminate].
+      destruct (legacy_rewrite_shape _ _ _ _ Erw Em) as [-> ->]. auto.
+    - intros [= <-]. apply (first_match_protection_off c st h (q_qtype q) Hst).
+  Qed.
+
+  (** Protection off and none of the administrator's rewrites applying: the
+      query is forwarded and the upstream answer delivered unchanged. *)
   Theorem protection_off c up q :
-    protection_on c = false -> early c q = false ->
+    protection_on c = false -> prefilter c q = PContinue false -> nothing_matches c q ->
     let o := process c up q in
     o_result o = no_result /\ o_calls o = [the_call q] /\
     o_resp o = Some (match up (q_name q) (q_qtype q) with Some r => r | None => servfail end).
   Proof.
-    intros Hp He. cbv zeta.
-    assert (Hst := client_settings_protection c q). rewrite Hp in Hst.
-    assert (Hres : check_host (client_settings c q) (trim_dot (q_name q)) (q_qtype q) = no_result).
-    { destruct (trim_dot (q_name q)) as [|x xs] eqn:Et; [reflexivity|].
-      rewrite check_host_unfold by discriminate. cbv zeta.
-      unfold Pipeline.match_host, match_services, check_safebrowsing, check_parental. rewrite Hst.
-      cbn [negb andb snd].
-      destruct (negb (st_filtering (client_settings c q))); [reflexivity|].
-      destruct (snd (block_eng _)); reflexivity. }
-    rewrite (process_not_early _ _ _ He). cbv zeta. rewrite Hres. cbn [r_filtered no_result].
-    destruct (up (q_name q) (q_qtype q)) as [r|]; [|repeat split; reflexivity].
-    unfold after_upstream. cbn [r_reason no_result]. rewrite Hp. cbn [negb orb]. repeat split; reflexivity.
+    intros Hp Hpre Hn. cbv zeta.
+    rewrite (passes_outcome _ _ _ _ (nothing_matches_passes _ _ Hpre Hn)).
+    unfold forward_outcome. destruct (up (q_name q) (q_qtype q)) as [r|]; [|repeat split].
+    unfold after_upstream. cbn [r_reason no_result]. rewrite Hp. cbn [negb orb]. repeat split.
   Qed.
 
   (** * C02 *)
@@ -436,24 +990,20 @@ Section Engines.
   Qed.
 
   (** Response filtering applies: protection on, filtering on for the client,
-      the request stage neither blocked nor allow-listed the name. *)
+      the request stage neither blocked, allow-listed nor rewrote the name. *)
   Definition response_filtering_applies (c : cfg) (q : request) : Prop :=
-    passes_request_stage c q /\
-    r_reason (check_host (client_settings c q) (trim_dot (q_name q)) (q_qtype q)) <> NotFilteredAllowList /\
-    protection_on c = true /\ st_filtering (client_settings c q) = true.
+    passes_request_stage c q no_result /\
+    protection_on c = true /\ st_filtering (request_settings c q) = true.
 
-  Lemma applies_after_upstream c q res r :
-    r_reason res <> NotFilteredAllowList -> protection_on c = true ->
-    st_filtering (client_settings c q) = true ->
-    after_upstream c q res r =
-    match filter_answer c (client_settings c q) (rs_answer r) with
-    | (_, Some fr) => mkOutcome (Some (filter_message c (q_name q) (q_qtype q) fr)) [the_call q] fr true true
-    | (ans', None) => mkOutcome (Some (mkResp (rs_rcode r) ans' (rs_soa r))) [the_call q] res false true
+  Lemma applies_after_upstream c up q r :
+    protection_on c = true -> st_filtering (request_settings c q) = true ->
+    after_upstream c up q no_result r =
+    match filter_answer c (request_settings c q) (rs_answer r) with
+    | (_, Some fr) =>
+        mkOutcome (Some (fst (filter_message c up (q_name q) (q_qtype q) fr))) [the_call q] fr true true (q_name q)
+    | (ans', None) => mkOutcome (Some (mkResp (rs_rcode r) ans' (rs_soa r))) [the_call q] no_result false true (q_name q)
     end.
-  Proof.
-    intros Hr Hp Hf. unfold after_upstream. rewrite Hp, Hf. cbn [negb orb].
-    destruct (r_reason res); try reflexivity. congruence.
-  Qed.
+  Proof. intros Hp Hf. unfold after_upstream. cbn [r_reason no_result]. rewrite Hp, Hf. reflexivity. Qed.
 
   (** The check of a record only ever reports a block-list result. *)
   Lemma match_host_filtered_reason st host qt :
@@ -462,6 +1012,7 @@ Section Engines.
     unfold Pipeline.match_host.
     destruct (negb (st_filtering st)); [discriminate|].
     destruct (snd (if st_protection st then _ else _)); [discriminate|].
+    destruct (matched (dnsrewrite_result _ host)); [rewrite dnsrewrite_result_not_filtered; discriminate|].
     destruct (negb (snd (block_eng _))); [discriminate|].
     destruct (negb (st_protection st)); [discriminate|].
     intros H. apply blocklist_result_filtered in H. tauto.
@@ -489,7 +1040,7 @@ Section Engines.
   Lemma check_rr_reason st r res :
     check_rr st r = Some res -> r_filtered res = true /\ r_reason res = FilteredBlockList.
   Proof.
-    unfold Pipeline.check_rr, check_host_rules. destruct (rr_data r) as [a|a|t|ps|ty id].
+    unfold Pipeline.check_rr, check_host_rules. destruct (rr_data r) as [a|a|t|ps|t|ty id].
     - destruct (r_filtered (match_host _ _ _)) eqn:E; [|discriminate].
       intros [= <-]. split; [exact E | apply match_host_filtered_reason; exact E].
     - destruct (r_filtered (match_host _ _ _)) eqn:E; [|discriminate].
@@ -497,6 +1048,7 @@ Section Engines.
     - destruct (r_filtered (match_host _ _ _)) eqn:E; [|discriminate].
       intros [= <-]. split; [exact E | apply match_host_filtered_reason; exact E].
     - apply filter_https_reason.
+    - discriminate.
     - discriminate.
   Qed.
 
@@ -507,20 +1059,20 @@ Section Engines.
     response_filtering_applies c q ->
     up (q_name q) (q_qtype q) = Some r ->
     rs_answer r = pre ++ rr0 :: post ->
-    Forall (clean c (client_settings c q)) pre ->
-    check_rr (client_settings c q) (strip_rr c rr0) = Some res ->
+    Forall (clean c (request_settings c q)) pre ->
+    check_rr (request_settings c q) (strip_rr c rr0) = Some res ->
     let o := process c up q in
     o_resp o = Some (synthetic c (q_name q) (q_qtype q) (ips_from_rules res)) /\
     o_result o = res /\ r_filtered res = true /\ r_reason res = FilteredBlockList /\
-    o_orig_kept o = true /\ o_calls o = [the_call q].
+    o_orig_kept o = true /\ o_calls o = [the_call q] /\ o_qname o = q_name q.
   Proof.
-    intros ([He Hf] & Hna & Hp & Hfil) Hu Hans Hpre Hr. cbv zeta.
-    rewrite (process_not_early _ _ _ He). cbv zeta. rewrite Hf, Hu.
-    rewrite (applies_after_upstream _ _ _ _ Hna Hp Hfil), Hans.
+    intros (Hpass & Hp & Hfil) Hu Hans Hpre Hr. cbv zeta.
+    rewrite (passes_outcome _ _ _ _ Hpass). unfold forward_outcome. rewrite Hu.
+    rewrite (applies_after_upstream _ _ _ _ Hp Hfil), Hans.
     rewrite (filter_answer_first _ _ _ _ _ _ Hpre Hr).
     destruct (check_rr_reason _ _ _ Hr) as [Hrf Hrr].
-    cbn [o_resp o_result o_orig_kept o_calls].
-    rewrite (filter_message_synthetic _ _ _ _ (or_introl Hrr)). repeat split; assumption.
+    cbn [o_resp o_result o_orig_kept o_calls o_qname].
+    rewrite (filter_message_synthetic _ _ _ _ _ (or_introl Hrr)). repeat split; assumption.
   Qed.
 
   (** No offending record: the answer is delivered as it came, except that
@@ -528,16 +1080,15 @@ Section Engines.
   Theorem clean_answer_unchanged c up q r :
     response_filtering_applies c q ->
     up (q_name q) (q_qtype q) = Some r ->
-    Forall (clean c (client_settings c q)) (rs_answer r) ->
+    Forall (clean c (request_settings c q)) (rs_answer r) ->
     let o := process c up q in
     o_resp o = Some (mkResp (rs_rcode r) (map (strip_rr c) (rs_answer r)) (rs_soa r)) /\
-    o_orig_kept o = false /\ r_filtered (o_result o) = false.
+    o_orig_kept o = false /\ r_filtered (o_result o) = false /\ o_qname o = q_name q.
   Proof.
-    intros ([He Hf] & Hna & Hp & Hfil) Hu Hclean. cbv zeta.
-    rewrite (process_not_early _ _ _ He). cbv zeta. rewrite Hf, Hu.
-    rewrite (applies_after_upstream _ _ _ _ Hna Hp Hfil).
-    rewrite (filter_answer_clean _ _ _ Hclean). cbn [o_resp o_orig_kept o_result].
-    repeat split; try reflexivity. exact Hf.
+    intros (Hpass & Hp & Hfil) Hu Hclean. cbv zeta.
+    rewrite (passes_outcome _ _ _ _ Hpass). unfold forward_outcome. rewrite Hu.
+    rewrite (applies_after_upstream _ _ _ _ Hp Hfil).
+    rewrite (filter_answer_clean _ _ _ Hclean). repeat split.
   Qed.
 
   Lemma strip_rr_id c r : c_aaaa_disabled c = false -> strip_rr c r = r.
@@ -547,14 +1098,14 @@ Section Engines.
   Proof. intros H. induction l as [|r l IH]; cbn; [reflexivity|]. rewrite strip_rr_id, IH by exact H. reflexivity. Qed.
 
   (** A closed gate: the answer is delivered untouched, whatever it holds. *)
-  Theorem gate_closed_unchanged c up q r :
-    passes_request_stage c q ->
+  Theorem gate_closed_unchanged c up q res r :
+    passes_request_stage c q res ->
     up (q_name q) (q_qtype q) = Some r ->
-    (r_reason (check_host (client_settings c q) (trim_dot (q_name q)) (q_qtype q)) = NotFilteredAllowList \/
-     protection_on c = false \/ st_filtering (client_settings c q) = false) ->
+    (r_reason res = NotFilteredAllowList \/
+     protection_on c = false \/ st_filtering (request_settings c q) = false) ->
     o_resp (process c up q) = Some r /\ o_orig_kept (process c up q) = false.
   Proof.
-    intros [He Hf] Hu Hg. rewrite (process_not_early _ _ _ He). cbv zeta. rewrite Hf, Hu.
+    intros Hpass Hu Hg. rewrite (passes_outcome _ _ _ _ Hpass). unfold forward_outcome. rewrite Hu.
     unfold after_upstream. destruct Hg as [Hg | [Hg | Hg]].
     - rewrite Hg. split; reflexivity.
     - rewrite Hg. cbn [negb orb]. destruct (r_reason _); split; reflexivity.
@@ -596,127 +1147,133 @@ Section Engines.
   Qed.
 End Engines.
 
-(** Queries answered before filtering: a fixed local answer, nothing
-    forwarded, nothing logged, no engine involved. *)
-Definition outcome_of (p : pstate) : outcome :=
-  mkOutcome (ps_resp p) (ps_calls p) (ps_result p) (ps_orig_kept p) (ps_logged p).
+(** * Filtering switched off for the client *)
 
-Lemma process_outcome_of a b sb par c up q :
-  process a b sb par c up q =
-  outcome_of (run_stages a b sb par c up q stage_order (mkPState None [] no_result false false false)).
-Proof. reflexivity. Qed.
-
-Definition early_answer (c : cfg) (q : request) : resp :=
-  if c_aaaa_disabled c && (q_qtype q =? tAAAA) then nodata
-  else if ((q_qtype q =? tA) || (q_qtype q =? tAAAA)) && eqb_bytes (q_name q) mozilla_fqdn then nxdomain
-  else empty_ok.
-
-Lemma early_finishes a b sb par c up q :
-  early c q = true ->
-  process a b sb par c up q = mkOutcome (Some (early_answer c q)) [] no_result false false.
+Lemma check_host_filtering_off a1 b1 a2 b2 sb par ss srt c st host qt :
+  st_filtering st = false ->
+  check_host a1 b1 sb par ss srt c st host qt = check_host a2 b2 sb par ss srt c st host qt.
 Proof.
-  rewrite process_outcome_of. unfold early, early_answer, stage_order. cbn [run_stages]. unfold run_stage at 1.
-  destruct (c_aaaa_disabled c && (q_qtype q =? tAAAA)); [reflexivity|].
-  destruct (((q_qtype q =? tA) || (q_qtype q =? tAAAA)) && eqb_bytes (q_name q) mozilla_fqdn); [reflexivity|].
-  destruct (eqb_bytes (q_name q) healthcheck_fqdn); [reflexivity|]. cbn. discriminate.
+  intros Hf. unfold check_host. destruct host; [reflexivity|]. rewrite Hf.
+  cbn [matched no_result r_reason]. unfold checker_order. cbn [first_match run_checker].
+  unfold match_host. rewrite Hf. reflexivity.
+Qed.
+
+Lemma after_upstream_filtering_off a1 b1 a2 b2 c up q res r :
+  st_filtering (request_settings c q) = false ->
+  after_upstream a1 b1 c up q res r = after_upstream a2 b2 c up q res r.
+Proof.
+  intros Hf. unfold after_upstream. rewrite Hf. cbn [negb]. rewrite !orb_true_r.
+  destruct (r_reason res); reflexivity.
 Qed.
 
 (** With filtering switched off for the client the rule lists are not
     consulted: the outcome is the same whatever the engines are. *)
-Theorem client_filtering_off a1 b1 a2 b2 sb par c up q :
-  st_filtering (client_settings c q) = false ->
-  process a1 b1 sb par c up q = process a2 b2 sb par c up q.
+Theorem client_filtering_off a1 b1 a2 b2 sb par ss srt c up q :
+  st_filtering (request_settings c q) = false ->
+  process a1 b1 sb par ss srt c up q = process a2 b2 sb par ss srt c up q.
 Proof.
-  intros Hf.
-  assert (Hm : forall a b h qt, match_host a b (client_settings c q) h qt = no_result).
-  { intros. unfold match_host. rewrite Hf. reflexivity. }
-  assert (Hc : forall a b, check_host a b sb par (client_settings c q) (trim_dot (q_name q)) (q_qtype q) =
-               check_host a1 b1 sb par (client_settings c q) (trim_dot (q_name q)) (q_qtype q)).
-  { intros. unfold check_host. destruct (trim_dot (q_name q)); [reflexivity|].
-    unfold checker_order. cbn [first_match run_checker]. rewrite !Hm. reflexivity. }
-  destruct (early c q) eqn:He.
-  - (* answered before filtering: the engines are not reached *)
-    rewrite !(early_finishes _ _ _ _ _ _ _ He). reflexivity.
-  - rewrite !(process_not_early _ _ _ _ _ _ _ He). cbv zeta. rewrite (Hc a2 b2).
-    destruct (r_filtered _); [reflexivity|].
-    destruct (up (q_name q) (q_qtype q)); [|reflexivity].
-    unfold after_upstream. rewrite Hf. cbn [negb]. rewrite !orb_true_r.
-    destruct (r_reason _); reflexivity.
+  intros Hf. rewrite !process_unfold. unfold process_spec.
+  destruct (prefilter c q) as [r|r|dhcp]; try reflexivity.
+  rewrite (check_host_filtering_off a1 b1 a2 b2 _ _ _ _ _ _ _ _ Hf).
+  destruct (check_host a2 b2 sb par ss srt c _ _ _) as [res|]; [|reflexivity].
+  unfold verdict_outcome, forward_outcome.
+  destruct (is_rewritten_cname res); [reflexivity|].
+  destruct (r_filtered res); [reflexivity|].
+  destruct (r_reason res); try reflexivity;
+    (destruct dhcp; [reflexivity|]; destruct (up _ _); [|reflexivity];
+     apply after_upstream_filtering_off; exact Hf).
 Qed.
 
-Theorem client_filtering_off_reason a b sb par c up q :
-  st_filtering (client_settings c q) = false ->
-  let r := r_reason (o_result (process a b sb par c up q)) in
+Lemma verdict_filtering_off a b sb par ss srt c st host qt res :
+  st_filtering st = false -> check_host a b sb par ss srt c st host qt = Some res ->
+  r_reason res <> FilteredBlockList /\ r_reason res <> NotFilteredAllowList /\
+  r_reason res <> RewrittenLegacy /\ r_reason res <> RewrittenAutoHosts /\ r_reason res <> RewrittenRule.
+Proof.
+  intros Hf. unfold check_host. destruct host; [intros [= <-]; cbn; repeat split; discriminate|].
+  rewrite Hf. cbn [matched no_result r_reason]. intros [= <-].
+  unfold checker_order. cbn [first_match run_checker].
+  unfold match_sys_hosts, match_host. rewrite Hf. cbn [negb orb matched no_result r_reason].
+  unfold match_services, check_safebrowsing, check_parental, check_safesearch.
+  repeat match goal with
+         | |- context [first_service ?s ?h] => destruct (first_service s h) as [[? ?]|]; cbn
+         | |- context [match ss ?h ?q with _ => _ end] => destruct (ss h q) as [[?|?]|]; cbn
+         | |- context [if ?b then _ else _] => destruct b; cbn
+         end; repeat split; discriminate.
+Qed.
+
+Theorem client_filtering_off_reason a b sb par ss srt c up q :
+  st_filtering (request_settings c q) = false ->
+  let r := r_reason (o_result (process a b sb par ss srt c up q)) in
   r <> FilteredBlockList /\ r <> NotFilteredAllowList.
 Proof.
-  intros Hf. cbv zeta.
-  assert (Hm : forall h qt, match_host a b (client_settings c q) h qt = no_result).
-  { intros. unfold match_host. rewrite Hf. reflexivity. }
-  assert (Hres : let res := check_host a b sb par (client_settings c q) (trim_dot (q_name q)) (q_qtype q) in
-                 r_reason res <> FilteredBlockList /\ r_reason res <> NotFilteredAllowList).
-  { cbv zeta. unfold check_host. destruct (trim_dot (q_name q)); [cbn; split; discriminate|].
-    unfold checker_order. cbn [first_match run_checker]. rewrite Hm. cbn [matched no_result r_reason reason_eqb negb].
-    unfold match_services, check_safebrowsing, check_parental.
-    destruct (negb (st_protection _)); cbn;
-      repeat match goal with
-             | |- context [first_service ?s ?h] => destruct (first_service s h) as [[? ?]|]; cbn
-             | |- context [if ?b then _ else _] => destruct b; cbn
-             end; split; discriminate. }
-  destruct (early c q) eqn:He.
-  - rewrite (early_finishes _ _ _ _ _ _ _ He). cbn. split; discriminate.
-  - rewrite (process_not_early _ _ _ _ _ _ _ He). cbv zeta. cbv zeta in Hres.
-    destruct (r_filtered _); [exact Hres|].
-    destruct (up (q_name q) (q_qtype q)); [|exact Hres].
-    unfold after_upstream. rewrite Hf. cbn [negb]. rewrite !orb_true_r.
-    destruct (r_reason _) eqn:Er; cbn [o_result]; rewrite ?Er; try exact Hres; split; congruence.
+  intros Hf. cbv zeta. rewrite process_unfold. unfold process_spec.
+  destruct (prefilter c q) as [r|r|dhcp]; try (cbn; split; discriminate).
+  destruct (check_host a b sb par ss srt c _ _ _) as [res|] eqn:Ev; [|cbn; split; discriminate].
+  destruct (verdict_filtering_off _ _ _ _ _ _ _ _ _ _ _ Hf Ev) as (H1 & H2 & _).
+  unfold verdict_outcome, forward_outcome, dhcp_nx.
+  destruct (is_rewritten_cname res).
+  { destruct dhcp; [cbn; auto|]. destruct (up _ _); cbn; auto. }
+  destruct (r_filtered res); [cbn; auto|].
+  destruct (r_reason res) eqn:Er; try congruence;
+    try (destruct (dns_rewrite_response _ _ _ _); cbn; rewrite ?Er; split; discriminate);
+    try (cbn; rewrite Er; split; discriminate);
+    (destruct dhcp; [cbn; rewrite Er; split; discriminate|];
+     destruct (up _ _); [|cbn; rewrite Er; split; discriminate];
+     unfold after_upstream; rewrite Hf, Er; cbn [negb]; rewrite orb_true_r; cbn; rewrite Er; split; discriminate).
 Qed.
 
 (** * Non-vacuity: concrete states meeting the premises *)
 
-Definition ex_name (s : bytes) : bytes := s.
 Definition b_a_test : bytes := [97;46;116;101;115;116].                 (* a.test *)
+Definition b_x_test : bytes := [120;46;116;101;115;116].                (* x.test *)
 Definition ex_pattern : bytes := [124;124;97;46;116;101;115;116;94].   (* ||a.test^ *)
 Definition no_clients : clients := mkClients [] [].
 
-Definition ex_block_rules : list rule :=
-  [RNet (mkNRule 1 false ex_pattern false false [] [] no_clients no_clients [])].
-Definition ex_allow_rules : list rule :=
-  [RNet (mkNRule 2 true ex_pattern false false [] [] no_clients no_clients [])].
+Definition plain_rule (id : N) (white : bool) (pat : bytes) (drw : option dnsrw) : rule :=
+  RNet (mkNRule id white pat false false [] [] no_clients no_clients [] [] [] drw).
 
-Definition ex_cfg (m : bmode) : cfg :=
-  mkCfg true None true false false m (mkAddr V4 3221225985 []) (mkAddr V6 1 []) 10 false
-        [] false [] BHEmpty BHEmpty.
-Definition ex_cfg_off : cfg :=
-  mkCfg true (Some true) true false false MDefault (mkAddr V4 3221225985 []) (mkAddr V6 1 []) 10 false
-        [] false [] BHEmpty BHEmpty.
+Definition ex_block_rules : list rule := [plain_rule 1 false ex_pattern None].
+Definition ex_allow_rules : list rule := [plain_rule 2 true ex_pattern None].
+
+Definition ex_cfg_with (m : bmode) (deadline : option bool) (rws : list Rewrites.entry) (sbh : blockhost) : cfg :=
+  mkCfg true deadline true true false m (mkAddr V4 3221225985 []) (mkAddr V6 1 []) 10 false
+        [] false [] sbh BHEmpty
+        rws false [] [] [] false None false [108;97;110] [] [] None.
+Definition ex_cfg (m : bmode) : cfg := ex_cfg_with m None [] BHEmpty.
+Definition ex_cfg_off : cfg := ex_cfg_with MDefault (Some true) [] BHEmpty.
 
 Definition ex_client_ip : addr := mkAddr V4 167772161 [].
 (* "B.a.TEST." A *)
-Definition ex_query : request := mkRequest [66;46;97;46;84;69;83;84;46] 1 ex_client_ip None.
+Definition ex_query : request := mkRequest [66;46;97;46;84;69;83;84;46] 1 ex_client_ip None false None.
 (* "x.test." A *)
-Definition ex_query_other : request := mkRequest [120;46;116;101;115;116;46] 1 ex_client_ip None.
-Definition ex_kid : pclient := mkPClient [107;105;100] true false false false false [] false.
-Definition ex_query_kid : request := mkRequest [66;46;97;46;84;69;83;84;46] 1 ex_client_ip (Some ex_kid).
+Definition ex_query_other : request := mkRequest [120;46;116;101;115;116;46] 1 ex_client_ip None false None.
+Definition ex_kid : pclient := mkPClient [107;105;100] true false false false false [] false false [].
+Definition ex_query_kid : request := mkRequest [66;46;97;46;84;69;83;84;46] 1 ex_client_ip (Some ex_kid) false None.
+
+Definition no_ss : bytes -> N -> option ssverdict := fun _ _ => None.
 
 Example ex_blocked_by_spec m :
-  blocked_by_spec (match_request []) (match_request ex_block_rules) (ex_cfg m) ex_query.
+  blocked_by_spec (match_request []) (match_request ex_block_rules) Rewrites.isort (ex_cfg m) ex_query.
 Proof.
-  unfold blocked_by_spec. cbv zeta. split; [reflexivity|]. split; [vm_compute; reflexivity|].
-  split; [vm_compute; discriminate|]. left.
-  unfold list_blocked. repeat split; vm_compute; reflexivity.
+  unfold blocked_by_spec. cbv zeta. split; [reflexivity|]. split; [exists false; vm_compute; reflexivity|].
+  split; [vm_compute; discriminate|]. split; [vm_compute; reflexivity|]. split; [vm_compute; reflexivity|]. left.
+  unfold list_blocked, no_dnsrewrite. repeat split; vm_compute; reflexivity.
 Qed.
 
 Example ex_other_premises :
-  allow_hit (match_request ex_allow_rules) (client_settings (ex_cfg MDefault) ex_query) (host_of ex_query) (q_qtype ex_query) /\
-  nothing_matches (match_request []) (match_request ex_block_rules) (fun _ => false) (fun _ => false)
-    (ex_cfg MDefault) ex_query_other /\
-  protection_on ex_cfg_off = false /\ early ex_cfg_off ex_query = false /\
-  st_filtering (client_settings (ex_cfg MDefault) ex_query_kid) = false.
+  allow_hit (match_request ex_allow_rules) (request_settings (ex_cfg MDefault) ex_query) (host_of ex_query) (q_qtype ex_query) /\
+  nothing_matches (match_request []) (match_request ex_block_rules) (fun _ => false) (fun _ => false) no_ss
+    Rewrites.isort (ex_cfg MDefault) ex_query_other /\
+  prefilter (ex_cfg MDefault) ex_query_other = PContinue false /\
+  protection_on ex_cfg_off = false /\ prefilter ex_cfg_off ex_query = PContinue false /\
+  st_filtering (request_settings (ex_cfg MDefault) ex_query_kid) = false.
 Proof.
   split; [split; vm_compute; reflexivity|].
   split; [|repeat split; vm_compute; reflexivity].
-  unfold nothing_matches. cbv zeta. split; [right; split; [vm_compute; reflexivity | left; vm_compute; reflexivity]|].
-  split; [vm_compute; reflexivity|]. split; left; vm_compute; reflexivity.
+  unfold nothing_matches. cbv zeta. split; [vm_compute; reflexivity|]. split; [vm_compute; reflexivity|].
+  split; [right; split; [vm_compute; reflexivity | split; [vm_compute; reflexivity | left; vm_compute; reflexivity]]|].
+  split; [vm_compute; reflexivity|]. split; [right; reflexivity|]. split; [left; vm_compute; reflexivity|].
+  left; vm_compute; reflexivity.
 Qed.
 
 (** An upstream answer "CNAME b.a.test., A 93.184.216.34" to a question for
@@ -729,8 +1286,8 @@ Definition ex_answer : resp :=
 
 Example ex_response_premises :
   let a := match_request [] in let b := match_request ex_block_rules in
-  let c := ex_cfg MNXDomain in let st := client_settings c ex_query_other in
-  response_filtering_applies a b (fun _ => false) (fun _ => false) c ex_query_other /\
+  let c := ex_cfg MNXDomain in let st := request_settings c ex_query_other in
+  response_filtering_applies a b (fun _ => false) (fun _ => false) no_ss Rewrites.isort c ex_query_other /\
   Forall (clean a b c st) [mkRR [120;46;116;101;115;116;46] 300 (DOther 16 7)] /\
   (exists res, check_rr a b st (strip_rr c (mkRR [120;46;116;101;115;116;46] 300 (DCNAME [98;46;97;46;116;101;115;116;46]))) = Some res) /\
   Forall (clean a b c st) [mkRR [98;46;97;46;116;101;115;116;46] 300
@@ -738,27 +1295,79 @@ Example ex_response_premises :
 Proof.
   cbv zeta. split.
   - unfold response_filtering_applies, passes_request_stage. repeat split; try (vm_compute; reflexivity).
-    vm_compute. discriminate.
+    left. reflexivity.
   - split; [repeat constructor|]. split; [eexists; vm_compute; reflexivity | repeat constructor].
 Qed.
+
+(** A legacy rewrite "a.test -> x.test" together with the block rule
+    "||a.test^": the premises of [legacy_rewrite_decides] hold, i.e. the
+    rewrite decides although the name is on a block list. *)
+Definition ex_rw_entry : Rewrites.entry :=
+  {| Rewrites.e_dom := b_a_test; Rewrites.e_ans := b_x_test; Rewrites.e_ip := None; Rewrites.e_type := Rewrites.RCNAME |}.
+Definition ex_cfg_rw : cfg := ex_cfg_with MDefault None [ex_rw_entry] BHEmpty.
+(* "a.test." A *)
+Definition ex_query_a : request := mkRequest [97;46;116;101;115;116;46] 1 ex_client_ip None false None.
+
+Example ex_rewrite_premises :
+  prefilter ex_cfg_rw ex_query_a = PContinue false /\ host_of ex_query_a <> [] /\
+  st_filtering (request_settings ex_cfg_rw ex_query_a) = true /\
+  (exists r, legacy_rewrite Rewrites.isort ex_cfg_rw (host_of ex_query_a) 1 = Some r /\ matched r = true /\
+             is_rewritten_cname r = true) /\
+  blocked_by_spec (match_request []) (match_request ex_block_rules) Rewrites.isort (ex_cfg MDefault) ex_query_a.
+Proof.
+  split; [vm_compute; reflexivity|]. split; [vm_compute; discriminate|]. split; [vm_compute; reflexivity|].
+  split; [eexists; repeat split; vm_compute; reflexivity|].
+  unfold blocked_by_spec. cbv zeta. split; [reflexivity|]. split; [exists false; vm_compute; reflexivity|].
+  split; [vm_compute; discriminate|]. split; [vm_compute; reflexivity|]. split; [vm_compute; reflexivity|]. left.
+  unfold list_blocked, no_dnsrewrite. repeat split; vm_compute; reflexivity.
+Qed.
+
+(** The rewritten question is not filtered again: with the rewrite
+    "x.test -> b.a.test" and "||a.test^" on the block list, a question for
+    x.test sends the blocked name b.a.test upstream (the administrator's
+    rewrite is followed as configured). *)
+Definition ex_rw_to_blocked : Rewrites.entry :=
+  {| Rewrites.e_dom := b_x_test; Rewrites.e_ans := [98;46;97;46;116;101;115;116]; Rewrites.e_ip := None;
+     Rewrites.e_type := Rewrites.RCNAME |}.
+
+Example ex_rewrite_target_not_filtered :
+  o_calls (process (match_request []) (match_request ex_block_rules) (fun _ => false) (fun _ => false) no_ss
+             Rewrites.isort (ex_cfg_with MDefault None [ex_rw_to_blocked] BHEmpty) (fun _ _ => Some ex_answer)
+             ex_query_other)
+  = [([98;46;97;46;116;101;115;116;46], 1)].
+Proof. vm_compute. reflexivity. Qed.
+
+(** Safe browsing with the block page given as a name: premises of
+    [blockpage_lookup_only]. *)
+Example ex_blockpage_premises :
+  let c := ex_cfg_with MDefault None [] (BHName [98;108;111;99;107;46;112;97;103;101]) in
+  exists res,
+    verdict (match_request []) (match_request []) (fun h => eqb_bytes h b_x_test) (fun _ => false) no_ss
+            Rewrites.isort c ex_query_other = Some res /\
+    r_filtered res = true /\ r_reason res = FilteredSafeBrowsing.
+Proof. cbv zeta. eexists. repeat split; vm_compute; reflexivity. Qed.
 
 (** * Layers A and B together: the verdict in terms of the rule lists *)
 From AGH Require Import Proofs.RuleEngine.
 
-(** Among the block-list rules that match the request and survive $badfilter
-    there is one of the highest priority class present, and it is not an
-    exception. *)
+(** Among the block-list rules that match the request, survive $badfilter
+    and carry no $dnsrewrite there is one of the highest priority class
+    present, and it is not an exception. *)
 Definition wins_block (rs : list rule) (rq : ufreq) : Prop :=
-  exists b, In b (remove_badfilter (match_all rs rq)) /\ nr_white b = false /\
-            forall r', In r' (remove_badfilter (match_all rs rq)) -> (rule_class r' <= rule_class b)%nat.
+  exists b, In b (basic_candidates (match_all rs rq)) /\ nr_white b = false /\
+            forall r', In r' (basic_candidates (match_all rs rq)) -> (rule_class r' <= rule_class b)%nat.
 
 (** No rule of the list matches: neither a network rule nor a hosts-style line. *)
 Definition no_rule_matches (rs : list rule) (rq : ufreq) : Prop :=
   match_all rs rq = [] /\ host_hits rs (rq_host rq) = [].
 
+(** No matching rule of the list carries $dnsrewrite. *)
+Definition no_rewrite_rule (rs : list rule) (rq : ufreq) : Prop :=
+  filter has_drw (match_all rs rq) = [].
+
 Lemma engine_blocks rs rq :
   rq_host rq <> [] -> wins_block rs rq ->
-  exists n, match_request rs rq = (mkRes (Some n) [] [], true) /\ nr_white n = false.
+  exists n, match_request rs rq = (mkRes (Some n) [] [] (match_all rs rq), true) /\ nr_white n = false.
 Proof.
   intros Hh (b & Hb & Hw & Hmax). unfold match_request.
   destruct (rq_host rq) as [|x xs] eqn:Eh; [congruence|].
@@ -776,16 +1385,33 @@ Proof.
   rewrite Hn. cbn. rewrite Hh. reflexivity.
 Qed.
 
+Lemma engine_all rs rq : rq_host rq <> [] -> dr_all (fst (match_request rs rq)) = match_all rs rq.
+Proof.
+  intros Hh. unfold match_request. destruct (rq_host rq); [congruence|].
+  destruct (get_dns_basic_rule _); [reflexivity|]. destruct (host_hits _ _); reflexivity.
+Qed.
+
+Lemma no_rewrite_rule_result rs rq host :
+  rq_host rq <> [] -> no_rewrite_rule rs rq ->
+  dnsrewrite_result (fst (match_request rs rq)) host = no_result.
+Proof.
+  intros Hh Hn. unfold dnsrewrite_result, dns_rewrites. rewrite (engine_all _ _ Hh), Hn. reflexivity.
+Qed.
+
 (** The premise of C01_blocked_is_local read over the rule lists themselves
-    (lists of any length): no allow-list rule matches the name, and a
-    non-exception rule of the block lists / custom rules wins. *)
+    (lists of any length): no allow-list rule matches the name, no matching
+    block-list rule carries $dnsrewrite, and a non-exception rule of the
+    block lists / custom rules wins. *)
 Theorem list_blocked_from_rules allow block st host qt :
   host <> [] -> st_filtering st = true ->
-  no_rule_matches allow (rq_of st host qt) -> wins_block block (rq_of st host qt) ->
+  no_rule_matches allow (rq_of st host qt) -> no_rewrite_rule block (rq_of st host qt) ->
+  wins_block block (rq_of st host qt) ->
   list_blocked (match_request allow) (match_request block) st host qt.
 Proof.
-  intros Hh Hf Ha Hb. unfold list_blocked.
+  intros Hh Hf Ha Hn Hb. unfold list_blocked, no_dnsrewrite.
   destruct (engine_blocks block (rq_of st host qt) Hh Hb) as (n & Hm & Hw).
-  repeat split; [exact Hf | apply engine_silent; exact Ha | rewrite Hm; reflexivity |].
+  split; [exact Hf|]. split; [apply engine_silent; exact Ha|].
+  split; [rewrite (no_rewrite_rule_result block (rq_of st host qt) host Hh Hn); reflexivity|].
+  split; [rewrite Hm; reflexivity|].
   rewrite Hm. cbn [fst]. unfold blocklist_result. cbn [dr_net]. rewrite Hw. reflexivity.
 Qed.
